@@ -12,1237 +12,2684 @@ Definition show_fres (r : fres) : string :=
   end.
 Definition check (rs : list rune) : string := digest (show_fres (format_res rs)).
 Definition full (rs : list rune) : string := show_fres (format_res rs).
-Eval vm_compute in ("<<<M265>>>" ++ check (runes_of_ascii "MetaData MetaDataX
-{
-    Foo BodyLength // packet A { u8 x, }
-, As T , }options { calculatedFrom = true  ;// " ++ [27880; 37322]%N ++ runes_of_ascii "
-Header
-= true}
-// trailing space 
-// c
-packet tag {	@leftPad (
-    '\x00') @lengthOf( Foo)// a // b
-@tag(
-    42)string body
-    ,
-@calculatedFrom(""abc"")
-char[ 00
-]	len,@calculatedFrom( """ ++ [128512]%N ++ runes_of_ascii """
-)	repeat tag ,match msg_type as // @lengthOf(
-Header {	65535
-//
-// @lengthOf(
-: roots , ""abc"" //
-: string_ , [ 007 , 0
-    // `tick` ""quote"" 'q'
-    ,	007 ]:
-// " ++ [128512]%N ++ runes_of_ascii " emoji
-// a // b
-zchar 255
-    //
-    : Packet [ ""packet"" , 0 ,
-    ""\" ++ [233]%N ++ runes_of_ascii """ , ""x y"" , 65535 , """ ++ [233]%N ++ runes_of_ascii "t" ++ [233]%N ++ runes_of_ascii """ , 0123456789
-,
-7]
-: //
-matchKey} ,repeat
-int64
-metadata`
-`
-,
-i64_
-`` //
-, char[42 ] MetaDataX
-// `tick` ""quote"" 'q'
-// c
-@calculatedFrom( ""CRC32"" ) , zchar[ 255 ]
-    //
-    roots	@lengthOf(
-    options1
-    ) `two words` , msg_type @calculatedFrom(
-    //x
-    ""\n""  ) ,
-    u len , } packet x {
-} packet falsey
-{  @calculatedFrom(
-""a	b""
-)
-    int64 falsey
-    `{ , }`,
-    repeat f64 crc// trailing space 
-,
-    @tag(	255) uint32 // a // b
-chars `" ++ [28040; 24687; 31867; 22411]%N ++ runes_of_ascii "` , @leftPad ( '\x00'	)@lengthOf( falsey )
-@calculatedFrom(	""a	b"" )  stringy { zchar[ // " ++ [27880; 37322]%N ++ runes_of_ascii "
-7	] Pad `line1
-line2` , string
-    pack,
-    // @lengthOf(
-    float64 string_ ,	},	repeat rootA{	match Logon as
-    /// triple
-    o // " ++ [27880; 37322]%N ++ runes_of_ascii "
-{ 007 //x
-:leftPad
-    , 0	: T , ""CRC32"" :
-T
-[ ""a	b"" ]: Logon , } ,
-    match // @lengthOf(
-x_y_z as
-_x
-{ 10
-:
-metadata , """ ++ [233]%N ++ runes_of_ascii "t" ++ [233]%N ++ runes_of_ascii """
-    : string_,  } ,} ,
-// c
-/// triple
-o{ options1
-    @calculatedFrom("""" ) ,	repeat i32
-body, } , @tag(1 /// triple
-) match packetx// " ++ [27880; 37322]%N ++ runes_of_ascii "
-as rootA
-{
-""" ++ [128512]%N ++ runes_of_ascii """:
-// `tick` ""quote"" 'q'
-//x
-zchar  ,
-    7 :
-    zchar  ,
-[ 0 , 42,
-""a\\"" , 0123456789	, ""it's""
-,3 //	t
-,
-""abc""	, 0123456789	]: lengthOf,
-// " ++ [27880; 37322]%N ++ runes_of_ascii "
-//x
-0
-// trailing space 
-// " ++ [27880; 37322]%N ++ runes_of_ascii "
-: _x, ""1"":
-    Header , }
-    , @rightPad
-    // c
-    ( ) repeat pack {
-match MetaDataX
-    as o { ""a\""b"" : Pad
-[ ""a\""b"" ]:A , 1
-: rootA  , }
-    , match	calculatedFrom as T/// triple
-{ 65535  : stringy , // " ++ [27880; 37322]%N ++ runes_of_ascii "
-65535 :  Packet ,
-    [
-007 , ""CRC32""
-    , 00 , 3 ,
-    65535
-,	""x y"" ,65535 ]: matchKey/// triple
-, 007
-: rootA
-,// @lengthOf(
-}, },char[] u128
-,// a // b
-}")).
-Eval vm_compute in ("<<<M159>>>" ++ check (runes_of_ascii "MetaData MetaDataX
-    { i8i8 roots
-,	zchar[	65535
-    ]rootA
-`// not a comment`, // a // b
-x_y_z  leftPad
-    //x
-    `u8 x,`, char[] stringy
-// c
-//x
-`it's` ,
-} // packet A { u8 x, }
-packet
-    Foo {
-string	lengthOf , i32 packetx@lengthOf( asx ) `{ , }`
-    ,
-repeat falsey`two words`, char[] roots@calculatedFrom(""" ++ [28040; 24687]%N ++ runes_of_ascii """ // " ++ [128512]%N ++ runes_of_ascii " emoji
-), //
-leftPad// @lengthOf(
-@calculatedFrom( """ ++ [28040; 24687]%N ++ runes_of_ascii """ )`" ++ [233]%N ++ runes_of_ascii "` ,
-    @tag( 42
-)
-zchar[
-65535 ]
-    As @lengthOf( a1
-)
-`doc`
-, } root packet charz{
-    @tag(
-    4294967296
-) string options1
-    `tab	here`
-    // @lengthOf(
-    , }packet leftPad	{ } packet metadata { //	t
-i32	BodyLength
-    @calculatedFrom(
-    ""it's"" ) `say ""hi""`,
-@rightPad //
-(	)
-    // " ++ [128512]%N ++ runes_of_ascii " emoji
-    chars//x
-{
-repeat
-    falsey	{ uint64 tag @lengthOf(
-len )
-, char[ 42]packetx @calculatedFrom(
-//x
-// a // b
-""abc"" )
-, } , Header { zchar[ 00 //x
-] charz
-@calculatedFrom( ""x y"" ) // trailing space 
-, uint8 calculatedFrom @calculatedFrom( ""\n"" // c
-) , trueish `" ++ [28040; 24687; 31867; 22411]%N ++ runes_of_ascii "` , string_ // @lengthOf(
-@calculatedFrom( ""// no comment"" ) // c
-`it's` ,} , string crc ,
-}  , // " ++ [128512]%N ++ runes_of_ascii " emoji
-@calculatedFrom( ""1"" )
-    @calculatedFrom(	""" ++ [28040; 24687]%N ++ runes_of_ascii """
-    // " ++ [27880; 37322]%N ++ runes_of_ascii "
-    ) @tag(7
-// trailing space 
-//
-) i8
-Foo
-// @lengthOf(
-// a // b
-, i8 a1
-//
-//x
-@calculatedFrom( ""{,}"" ) ``
-, repeat falsey	{
-o // c
-@calculatedFrom( ""abc"" ) `
-`  , zchar[42 ] matchKey , }	, i64 As ,
-//	t
-// `tick` ""quote"" 'q'
-repeat As  , repeat
-    int64 string_
-, }
-//	t
-")).
-Eval vm_compute in ("<<<M133>>>" ++ check (runes_of_ascii "root packet x_y_z { match Z9_ as  u{ 255:pack , 255 : u128
-, 007 : float ""\n"" :options1 , [	""" ++ [28040; 24687]%N ++ runes_of_ascii """ , 1 ]
-: Z9_""" ++ [28040; 24687]%N ++ runes_of_ascii """:	chars
-, }, u8 _x @calculatedFrom(
-    // a // b
-    """ ++ [28040; 24687]%N ++ runes_of_ascii """ )`say ""hi""` ,@tag( 3 ) match a1 as msg_type { [ ""\n"" // a // b
-, 255//x
-, 0 ] :crc	,} , }
-root packet o
-{  match tag as _x
-    { 007 :
-    x ,	10 :charz,
-""{,}""
-:body	,""" ++ [233]%N ++ runes_of_ascii "t" ++ [233]%N ++ runes_of_ascii """ : len
-""" ++ [128512]%N ++ runes_of_ascii """
-    :
-    u , }
-    ,
-    u64 u @calculatedFrom( ""x y""
-// c
-// " ++ [27880; 37322]%N ++ runes_of_ascii "
-)
-`it's`, @lengthOf( trueish ) repeat // packet A { u8 x, }
-uint8 u8x
-`" ++ [28040; 24687; 31867; 22411]%N ++ runes_of_ascii "` // a // b
-, @calculatedFrom(	""\n"" )
-    @rightPad() @leftPad (
-    '\x00')
-    repeat uint32 float, @lengthOf(	A )
-    @tag(//	t
-0123456789 ) @rightPad ( ' '
-    ) zchar[ 10	]
-    // " ++ [128512]%N ++ runes_of_ascii " emoji
-    o// packet A { u8 x, }
-,
-    uint8x
-    @calculatedFrom( ""a\\"" // " ++ [27880; 37322]%N ++ runes_of_ascii "
-) `
-`
-,body
-, repeat //	t
-char[10 ]
-    string_ `tab	here`
-    , } root packet
-    roots {  } packet u {@calculatedFrom(	""" ++ [128512]%N ++ runes_of_ascii """ )	f64 Logon// `tick` ""quote"" 'q'
-@calculatedFrom( ""1""
-)
-    `a\` ,  int16 trueish `line1
-line2`
-,//
-zchar[  0123456789 ]
-    // a // b
-    BodyLength `two words`, float32 i8i8 @lengthOf( metadata ) `// not a comment`
-, i32 leftPad,	}
-
-")).
-Eval vm_compute in ("<<<M1532>>>" ++ check (runes_of_ascii "  options
-{ LittleEndian
-= true ;
-    StringPrefixLenType
-
-    =
-u16	;
-    ArrayPrefixLenType=
-
-    u8 ;
-    FixedStringPadChar
-    =  '0'; }
-
-packet Logout
-	{repeat i16 f1
-
-    ,
-string
-	Ref , @rightPad (	'\x00' 
-)
-    char[ 9	] 
-Tail 
-,  repeat
-char[	6 
-] Flags ,
-repeat
-    char[  3 ] Acct
-
-    ,
-} packet
-Party {
-char[ 2  ]
-
-f1
-    ,
-u8 Side2 ,
-    @leftPad 
-( 
-' '
-
-) char[
-
-    1 
-]venue ,
-} packet Order
-{
-    repeat
-    i64
-
-Ref
-    , 
-InPx62 { i32 
-OrderId
-
-, }
-
-    ,	InNote53
-    { InClordid80	{
-char[] 
-Acct  ,
-	u32
-	Px
-,
-
-    repeat  Party , }	,
-
-InPrice12{
-u8
-pad0
-, 
-}, repeat
-Logout	,  InFlags23 {
-
-repeat
-	string  seqNo
-
-, string sym
-,
-    int8 
-Flags,
-
-zchar[
-5
-    ]lastPx,
-	zchar[ 6
-
-    ]
-
-Px
-,
-}  , 
-char[10
-    ] 
-Acct,	InPx18 
-{ zchar[2
-
-]
-
-    count
-    ,	Party
-	,  }
-
-    ,}  , char[5
-]
-
-Side2  ,char[
-	1
-
-]Acct
-
-,}
-root
-
-    packet
-
-Ack{
-
-u32 Tail  ,repeat
-
-char[ 4
-]
-    msgKind
-, repeat	Logout ,	}
-
-")).
-Eval vm_compute in ("<<<M1933>>>" ++ check (runes_of_ascii "options{  LittleEndian= 
-false	; StringPrefixLenType=
-
-    u8 ;  ArrayPrefixLenType =	u8  ;FixedStringPadFromLeft= true;
-
-    FixedStringPadChar
-    =	' '  ; }
-
-packet
-
-    Trade 
-{
-	zchar[ 2 ] Side2,
-
-    i8 seqNo
-
-    ,	}
-
-    packet	Party 
-{ uint32
-
-price
-
-,
-	}
-
-packet
-Ack
-	{
-@rightPad
-    ( '\x00'
-
-) char[6 
-]
-x 
-,  repeat
-char[
-
-4  ]
-
-    Flags
-,zchar[
-9 ]
-f1
-
-    , }
-    packet Cancel
-	{
-Ack
-	,
-}packet  Heartbeat 
-{
-    string
-    Px
-    ,
-
-    string  Acct ,
-f64
-
-Side2
-
-,
-
-InQty24
-	{  i16 
-seqNo  ,
-repeat  i32 Flags
-	, } ,  }  root
-    packet Logon
-	{
-Trade  , 
-i64 venue  ,  u32
-    x 
-,
-	u8 
-seqNo	,match seqNo
-
-as
-
-    Body{
-    [ 1
-    ,
-164
-
-]
-	:	Ack
-
-, 
-31
-	:
-Cancel , 23	:
-
-    Heartbeat 
-,
-
-    64 :
-    Party	, }
-
-    ,	} ")).
-Eval vm_compute in ("<<<M88>>>" ++ check (runes_of_ascii "// trailing space 
-packet tag {
-    @rightPad
-    // @lengthOf(
-    ( '0' )
-    u128 ,
-@lengthOf(MetaDataX
-    )
-    // c
-    leftPad, // packet A { u8 x, }
-@tag( 1
-    )calculatedFrom
-    @lengthOf( Logon )  , }
-packet string_	{ } packet u128 {char[	0 // packet A { u8 x, }
-]
-chars `say ""hi""`
-,
-int , @leftPad ( '0'
-// @lengthOf(
-//x
-)T { repeat zchar[ 255]
-int
-,zchar  stringy	, }
-    ,repeat zchar{ match leftPad as packetx
-{ [
-""`tick`""
-    ] :
-    lengthOf //x
-,  [  7,""" ++ [128512]%N ++ runes_of_ascii """
-    ,
-00 , ""x y"" , ""packet"" ] :
-    stringy // @lengthOf(
-, [
-42 ,""\n""
-, ""it's"" ,// " ++ [128512]%N ++ runes_of_ascii " emoji
-65535, 1	]
-: msg_type ""packet"" :	a1 ,} , u16 int
-,
-repeat x_y_z float,
-repeat//x
-u64 A `a\` ,
-} , }
-")).
-Eval vm_compute in ("<<<M1894>>>" ++ check (runes_of_ascii "
-
-  root
-
-    packet pack
-{@calculatedFrom( ""`tick`""
-)@calculatedFrom( 
-// " ++ [128512]%N ++ runes_of_ascii " emoji
-	""\n""
-
-) @tag( 0123456789
-)  match
-zchar as
-    string_  {[
-
-""packet""
-
-    ]//
-
-  :
-
-i8i8
-    , [	0123456789	,7 
-]	:
-
-string_, 
-    //x
-    // `tick` ""quote"" 'q'
-0
-
-:
-	options1 , 
-""\" ++ [233]%N ++ runes_of_ascii """	:	// `tick` ""quote"" 'q'
-  Foo
-,
-
+Eval vm_compute in ("<<<M3500>>>" ++ check (runes_of_ascii "options {
+    StringPrefixLenType = u8;
+    ArrayPrefixLenType = u64;
+    FixedStringPadFromLeft = true;
+    JavaPackage = ""com.example.msg"";
+    GoPackage = ""msg"";
+    GoModule = ""example.com/msg"";
 }
-
-,@lengthOf(
-    calculatedFrom
-	)  Foo	@lengthOf(
-
-    x
-)  `crlf
-line`, lengthOf
-@lengthOf(
-int 
-),T
-
-    ,
-	@lengthOf(
-
-    rootA)
-    zchar[
-007
-	]
-    // " ++ [128512]%N ++ runes_of_ascii " emoji
-// packet A { u8 x, }
-	x `crlf
-line`
-
-    , @calculatedFrom( ""\n""
-)repeat
-f64
-chars  ,matchKey
-_x
-    , } ")).
-Eval vm_compute in ("<<<M1562>>>" ++ check (runes_of_ascii "options	{LittleEndian  =
-
-    false;
-
-ArrayPrefixLenType
-
-=u64	;FixedStringPadChar =
-    '0'
-
-;
-
-    }packet
-	Quote
-
-    {repeat 
-InFlags37 
-{
-char[]
-	lastPx, 
-}, i16
-    tag7, char[] 
-f1
-,
-zchar[	6
-	]Note	,} packet
-Order	{
-u8
-Ref,
-repeat
-
-    Quote , repeat
-string 
-Acct,	}	root
-	packet Heartbeat {  repeat
-
-Quote ,
-    @leftPad (
-'0'
-
-    )
-char[  11 ]
-OrderId ,
-
-zchar[	8
-]Ref
-, u32 Flags,u32 Tail
-	@lengthOf( Body
-	)	,
-
-match Flags
-as  Body
-	{
-156
-: Order, 
-7
-
-    :
-Quote  ,	}
-
-    ,}
-")).
-Eval vm_compute in ("<<<M2042>>>" ++ check (runes_of_ascii "packet T {
-    @lengthOf(MetaDataX)
-    match Packet as a1 {
-        [""1""] : zchar,
-        ""{,}"" : _x,
-    },// @lengthOf(
-    char[007] u128 @lengthOf(zchar),
-    string_,
-    @leftPad(' ')
-    match MetaDataX as u128 {
-        [""it's"", 7, 65535, 65535] : chars,
-        """ ++ [28040; 24687]%N ++ runes_of_ascii """ : u,
-        42 : zchar,
-    },
+MetaData Meta {
+    u32 SeqNum `sequence number
+more`,
+    char[8] Symbol `symbol
+more`,
+    zchar[5] ZSym `z symbol
+more`,
+    string Note,
+    Symbol AltSymbol `alias of symbol`,
+    f64 Price,
 }
-
-options {
-    matchKey = ""a\""b""
+packet Inner {
+    u8 a,
+    i16 b,
+    string c,
 }
-
-MetaData options1 {
-    i16 len,
-    char[7] crc,
-    u16 asx `say ""hi""`,
-    i64 zchar,
-}// " ++ [27880; 37322]%N)).
-Eval vm_compute in ("<<<M1687>>>" ++ check (runes_of_ascii "options {
-    o = ' ';
-    lengthOf = ""it's""
-    string_ = """ ++ [28040; 24687]%N ++ runes_of_ascii """;
-    i8i8 = uint32
+packet Inner2 {
+    u8 a2,
+    char[3] c2,
 }
-
 packet Logon {
-    Pad @lengthOf(stringy),
-    @rightPad('\x00')
-    Header stringy `a\`,
-    T {
-        match a1 as Logon {
-            42 : chars,
+    u8 x,
+    string user,
+    repeat u16 codes,
+}
+packet Logout {
+    u16 reason,
+}
+packet Empty {
+}
+root packet Msg {
+    u8 su8,
+    uint8 luint8,
+    u16 su16,
+    uint16 luint16,
+    u32 su32,
+    uint32 luint32,
+    u64 su64,
+    uint64 luint64,
+    i8 si8,
+    int8 lint8,
+    i16 si16,
+    int16 lint16,
+    i32 si32,
+    int32 lint32,
+    i64 si64,
+    int64 lint64,
+    f32 sf32,
+    float32 lfloat32,
+    f64 sf64,
+    float64 lfloat64,
+    char[6] fsplain,
+    @leftPad('0') char[4] fs0,
+    @rightPad('0') char[5] fs1,
+    @leftPad(' ') char[6] fs2,
+    @rightPad(' ') char[7] fs3,
+    @leftPad('\x00') char[8] fs4,
+    @rightPad('\x00') char[9] fs5,
+    @leftPad() char[10] fs6,
+    @rightPad() char[11] fs7,
+    zchar[7] fz,
+    @leftPad('0') zchar[3] fzl0,
+    string s1 `doc`,
+    char[] s2,
+    Inner,
+    Sub {
+        u8 q,
+        string w,
+        Deep {
+            u16 z,
+            repeat i32 zs,
         },
     },
-    stringy {
-        zchar[7] x_y_z,
+    repeat u8 ru8,
+    repeat u16 ru16,
+    repeat u32 ru32,
+    repeat u64 ru64,
+    repeat i8 ri8,
+    repeat i16 ri16,
+    repeat i32 ri32,
+    repeat i64 ri64,
+    repeat f32 rf32,
+    repeat f64 rf64,
+    repeat string rstr,
+    repeat char[] rstr2,
+    repeat char[3] rfs,
+    repeat zchar[3] rfz,
+    repeat Inner2,
+    repeat Grp {
+        u8 k,
+        char[2] v,
     },
-    uint8x BodyLength,
-    repeat zchar,
-    @tag(7)
-    repeat u64 u128 `" ++ [28040; 24687; 31867; 22411]%N ++ runes_of_ascii "`,
-}")).
-Eval vm_compute in ("<<<M199>>>" ++ check (runes_of_ascii "
-root packet
-    tag { f64
-len ,
-char[
-    4294967296 ] A@calculatedFrom( """"  )`it's`, @tag( 65535
-    )
-match charz// a // b
-as tag	{
-    [ ""// no comment"" , """ ++ [128512]%N ++ runes_of_ascii """ ]:
-zchar	,
-    ""\n"":falsey  , },} packet float {f32a { repeat  packetx{
-    //x
-    char[ 255 ] int `it's`  ,} , uint32 x_y_z @lengthOf( pack ) // " ++ [27880; 37322]%N ++ runes_of_ascii "
-,}, } // `tick` ""quote"" 'q'")).
-Eval vm_compute in ("<<<M4>>>" ++ check (runes_of_ascii "root packet pack  { match Pad as// a // b
+    SeqNum,
+    SeqNum seq2,
+    repeat SeqNum seqs,
+    Symbol,
+    AltSymbol alt,
+    ZSym,
+    Note,
+    repeat Symbol syms,
+    Price px,
+    u16 MsgType,
+    u32 BodyLen @lengthOf(Body),
+    match MsgType as Body {
+        1 : Logon,
+        [2, 3] : Logout,
+        7 : Logon,
+        9 : Empty,
+    },
+    u32 Checksum @calculatedFrom(""CRC32""),
+}
+")).
+Eval vm_compute in ("<<<M788>>>" ++ check (runes_of_ascii "
+root
+packet i8i8 {i8// c
+crc
+,@rightPad ( )uint64 u128`crlf
+line` , uint64 _x
+`
+`, x ,	i16 As @calculatedFrom( """ ++ [128512]%N ++ runes_of_ascii """ ) `crlf
+line`
+, leftPad { u
+    {	zchar[ 4294967296 ] MetaDataX
+//x
+// trailing space 
+`crlf
+line` , calculatedFrom,repeat u16 T `tab	here`
+,
+    // packet A { u8 x, }
+    }	, string	As @calculatedFrom(  """") ``
+,  },  @calculatedFrom(""" ++ [128512]%N ++ runes_of_ascii """ )
+    match	falsey as o { 0 :
+    // " ++ [27880; 37322]%N ++ runes_of_ascii "
+    Logon ,	42 /// triple
+:body
+}  , pack MetaDataX // `tick` ""quote"" 'q'
+, u32 lengthOf @lengthOf(
+    Packet )`line1
+line2` , } // c
+options {
+asx = false }packet i64_  { A
+{ char[]// " ++ [128512]%N ++ runes_of_ascii " emoji
 f32a
-    {	[
+@lengthOf( options1 ) `it's`
+, }
+,
+repeat x_y_z matchKey // " ++ [27880; 37322]%N ++ runes_of_ascii "
+, repeat char[] x_y_z
+    `it's` // " ++ [27880; 37322]%N ++ runes_of_ascii "
+, @lengthOf(  As ) char[] x_y_z
+,
+@tag( 00)@calculatedFrom(  """ ++ [233]%N ++ runes_of_ascii "t" ++ [233]%N ++ runes_of_ascii """ )
+    u8 pack @calculatedFrom( ""CRC32"")
+,}	packet roots{ match roots as f32a { 3: uint8x, 7 : u128 , //x
+""" ++ [28040; 24687]%N ++ runes_of_ascii """
+    // `tick` ""quote"" 'q'
+    :
+Z9_,[
+7  ,""a	b"" // a // b
+, """"
+    , 7 , ""packet"" ,
+    ""packet""
+, ""x y""
+    // packet A { u8 x, }
+    ]	:
+    packetx ,
+""{,}"" /// triple
+: u, }
+, @lengthOf(
+    // `tick` ""quote"" 'q'
+    msg_type ) match	asx// a // b
+as	uint8x {
+    [ ""a	b""
+    ,0, """ ++ [28040; 24687]%N ++ runes_of_ascii """ ,	4294967296
+    //x
+    ,65535]:
+// `tick` ""quote"" 'q'
+// c
+u  00// c
+:	options1 0123456789 : body
+    , }	,
+i64_
+,@tag( 65535
+) @lengthOf( lengthOf )	Header `doc` , uint16 roots @calculatedFrom(	""" ++ [28040; 24687]%N ++ runes_of_ascii """) , @rightPad
+( '0' //
+) match
+u8x as // " ++ [128512]%N ++ runes_of_ascii " emoji
+f32a { [ ""x y""	,  """ ++ [128512]%N ++ runes_of_ascii """
+, ""`tick`"" ]  :
+// " ++ [128512]%N ++ runes_of_ascii " emoji
+// c
+calculatedFrom , ""a\""b"" :packetx	,[ 0]: As
+    , [""" ++ [28040; 24687]%N ++ runes_of_ascii """
+    ] :
+Z9_ } ,@lengthOf(
+Logon ) match chars // " ++ [27880; 37322]%N ++ runes_of_ascii "
+as
+// packet A { u8 x, }
+// trailing space 
+len
+{ [3
+    ,
+""a\\""
+]
+    :
+    string_ [ ""it's"" ,""a\\"" ] :
+len,  [ ""\n"" ,  3
+, """ ++ [28040; 24687]%N ++ runes_of_ascii """
+]
+:  rootA	, 10
+    //x
+    : msg_type
+,}
+,	char[] chars  @lengthOf(
+trueish
+) // `tick` ""quote"" 'q'
+`{ , }`  , }
+")).
+Eval vm_compute in ("<<<M961>>>" ++ check (runes_of_ascii "options {
+    u128
+    =
+/// triple
+/// triple
+""x y"";
+    Logon = '\x00' Foo//x
+= ""CRC32"" // a // b
+; }options	{u= // a // b
+""1""  ;
+    u = float64
+    ;  Logon = false
+;	} root packet Header { @tag( 0) @lengthOf( metadata ) Pad {T @calculatedFrom(
+""// no comment""),
+    repeat char[//	t
+255 ]
+metadata `` ,
+}
+    , @lengthOf(metadata ) //
+repeat string asx	`two words`,
+    //
+    @tag(1 ) As { /// triple
+tag	@lengthOf(	u8x ) ,Z9_
+    `tab	here` , zchar[1
+    // packet A { u8 x, }
+    ] string_// packet A { u8 x, }
+@calculatedFrom(
+// " ++ [27880; 37322]%N ++ runes_of_ascii "
+// a // b
+""packet"" ) ,  match// a // b
+stringy as As { ""a\\"":
+    metadata ,
+    [ ""abc"" , ""x y"" ]// trailing space 
+:
+Header
+255 :  u
+    ,
+7 :	msg_type  [
+    // @lengthOf(
+    ""x y"",""a\\"" //x
+,10
+// c
+// " ++ [128512]%N ++ runes_of_ascii " emoji
+, ""packet"" ] :chars }  ,
+}	, @leftPad (
+'\x00'
+)	i64_ { x  `say ""hi""` ,
+}
+    , repeat Foo { len{ match u as
+_x
+    // trailing space 
+    {
+42 :tag
+// c
+// a // b
+,
+[
+""" ++ [233]%N ++ runes_of_ascii "t" ++ [233]%N ++ runes_of_ascii """
+    ] : //x
+_x[
+    7 , // " ++ [128512]%N ++ runes_of_ascii " emoji
+4294967296]
+: Packet // `tick` ""quote"" 'q'
+,//	t
+} , float64 o `a\` , f32a Pad`crlf
+line`
+,} ,
+    /// triple
+    } , match options1 as uint8x
+{	42 :len
+    // " ++ [128512]%N ++ runes_of_ascii " emoji
+    ,
+    255 :	o ,	255 : Logon
+,
+    0
+//
+// a // b
+: Header
+    // " ++ [128512]%N ++ runes_of_ascii " emoji
+    , 007
+: msg_type
+,} // @lengthOf(
+, @rightPad( '\x00'
+    ) @calculatedFrom( ""a\\"" ) @calculatedFrom( ""\" ++ [233]%N ++ runes_of_ascii """ )repeat Foo // `tick` ""quote"" 'q'
+{	char[
+    // 50% %s
+    00 ]rootA ,}, repeat charz  T `" ++ [233]%N ++ runes_of_ascii "`
+,
+string BodyLength
+    // 50% %s
+    , repeat u128// packet A { u8 x, }
+, }")).
+Eval vm_compute in ("<<<M4091>>>" ++ check (runes_of_ascii "options {
+    BodyLength = """ ++ [28040; 24687]%N ++ runes_of_ascii """
+    Header = '0';
+}
+
+root packet crc {
+    asx @lengthOf(crc) `" ++ [28040; 24687; 31867; 22411]%N ++ runes_of_ascii "`,
+    @calculatedFrom(""x y"")
+    @lengthOf(Logon)
+    repeat f32a {
+        i32 calculatedFrom @lengthOf(Packet) `// not a comment`,
+        charz @lengthOf(u),
+        match asx as As {
+            ""it's"" : _x,
+            ""x y"" : calculatedFrom,
+            ""packet"" : Pad,
+        },
+        charz chars,
+    },
+    @leftPad(' ')
+    // `tick` ""quote"" 'q'
+    i8 A `line1
+        line2`,
+    repeat zchar[42] x,
+    As `" ++ [233]%N ++ runes_of_ascii "`,
+    char[] crc,
+    @calculatedFrom(""`tick`"")
+    Header {
+        match chars as float {
+            ""abc"" : matchKey,
+            007 : calculatedFrom,
+            // 50% %s
+            ""\n"" : i64_,
+            ""packet"" : i8i8,
+            [10, 0123456789] : roots,
+        },
+        metadata repeatCount,// " ++ [128512]%N ++ runes_of_ascii " emoji
+    },
+}
+
+packet o {
+    u16 chars @calculatedFrom(""abc""),
+    repeat int {
+        uint8 len,
+        // `tick` ""quote"" 'q'
+        u128 asx,
+        match u128 as lengthOf {
+            ""it's"" : packetx,
+            0123456789 : a1,
+            ["""", 0123456789] : asx,
+        },
+    },
+    char _x @lengthOf(repeatCount),
+    repeat uint64 u128,
+}
+
+root packet _x {
+    repeat int {
+        repeat Z9_ body,
+        // 50% %s
+        //x
+    },
+}
+// trailing space ")).
+Eval vm_compute in ("<<<M995>>>" ++ check (runes_of_ascii "packet options1	{@calculatedFrom( ""CRC32"" ) uint8 // 50% %s
+crc , @tag(1 )metadata
+// 50% %s
+// 50% %s
+f32a `crlf
+line`
+    // " ++ [27880; 37322]%N ++ runes_of_ascii "
+    , int ,
+repeat As {i64 rootA @lengthOf( string_ ) `a\` , char[
+007
+    ] string_ @lengthOf(  u8x)
+//x
+// 50% %s
+, char[ 4294967296 ] As@lengthOf(
+metadata  ), uint64 lengthOf `say ""hi""` , }, lengthOf@lengthOf(
+roots )
+    ,@tag( 1
+) matchKey
+{
+repeat rootA _x
+    ,} , char[ 65535  ] string_@lengthOf( repeatCount ) ,
+f32a // " ++ [27880; 37322]%N ++ runes_of_ascii "
+@calculatedFrom(	""""
+) ,
+    match
+u128 as Z9_ {
+""" ++ [28040; 24687]%N ++ runes_of_ascii """ /// triple
+: lengthOf ""\" ++ [233]%N ++ runes_of_ascii """
+    : string_,
+    } , @tag(
+    // c
+    4294967296 )
+    u64 f32a ,
+} root	packet msg_type { }
+    // 50% %s
+    packet
+    int
+{
+char[] T //x
+@lengthOf(
+A ) // c
+, // c
+@tag(7
+    )
+@lengthOf( uint8x ) T trueish ,body
+{ Foo @lengthOf( trueish)
+,T
+    packetx `tab	here` ,zchar[ 0123456789 ] a1
+@calculatedFrom( """ ++ [28040; 24687]%N ++ runes_of_ascii """)
+    `say ""hi""`
+,
+    uint8x , },
+    @tag(
+10
+    ) repeat f64 options1 , @rightPad
+    ( ) trueish// " ++ [128512]%N ++ runes_of_ascii " emoji
+@lengthOf(
+    A ) ``, repeat MetaDataX `line1
+line2`	, string repeatCount @calculatedFrom( """ ++ [128512]%N ++ runes_of_ascii """ )
+, @calculatedFrom(""" ++ [233]%N ++ runes_of_ascii "t" ++ [233]%N ++ runes_of_ascii """
+    )
+uint8 a1@lengthOf( // 50% %s
+leftPad ) ,@calculatedFrom( ""abc"" ) Z9_ @calculatedFrom( ""abc"" )
+    , } 	 ")).
+Eval vm_compute in ("<<<M4042>>>" ++ check (runes_of_ascii "
+packet	x_y_z
+{
+@lengthOf(
+crc)match
+repeatCount as 
+u8x 
+{ 
+
+    // 50% %s
+  """"
+:	string_// " ++ [128512]%N ++ runes_of_ascii " emoji
+	, 
+4294967296 
+
+    /// triple
+	: 	 // a // b
+msg_type
+	,	// 50% %s
+  	}
+
+    ,
+    @tag(007 
+) float  {
+    char[ 
+      // c
+  3 ]
+
+MetaDataX
+    @lengthOf(u 
+) ,  } // c
+,@leftPad (  ' '
+) 
+repeat char[]
+trueish
+
+`two words` ,	}
+//x
+    	root	packet // " ++ [128512]%N ++ runes_of_ascii " emoji
+  asx{
+	zchar[
+10	// " ++ [27880; 37322]%N ++ runes_of_ascii "
+] f32a
+	@calculatedFrom(
+""x y"")
+,	@calculatedFrom( ""abc""
+
+    )
+zchar[
+10
+
+]
+u8x  ,repeat
+_x { // " ++ [128512]%N ++ runes_of_ascii " emoji
+      int8
+
+charz
+
+    `two words` 
+, 
+i16
+    u128,
+	}
+
+,	/// triple
+
+packetx@lengthOf(  Logon	) 
+// `tick` ""quote"" 'q'
+      // `tick` ""quote"" 'q'
+    `" ++ [28040; 24687; 31867; 22411]%N ++ runes_of_ascii "`	, 
+char[
+00
+	]
+    pack
+, @rightPad 
+(  ) match
+
+    repeatCount as packetx {
+""1""
+    : int,}
+
+    ,	match	stringy as
+
+leftPad{
+	[  00
+,
+""a	b""
+
+] 	 // " ++ [128512]%N ++ runes_of_ascii " emoji
+  	: As  ,
+
+    }	,
+
+    f64
+
+crc
+
+    @lengthOf(
+float 
+)  , @leftPad
+
+(
+'\x00'
+)
+
+// a // b
+	  @rightPad
+
+(
+' ') repeat roots 
+packetx,@tag(65535 
+//	t
+		// " ++ [128512]%N ++ runes_of_ascii " emoji
+
+  )
+uint64
+matchKey  ,
+    } 
+    // a // b
+		root packet Logon
+	{}
+
+MetaData  Packet{ string 
+asx
+
+`u8 x,`
+
+    ,} ")).
+Eval vm_compute in ("<<<M256>>>" ++ check (runes_of_ascii "packet // 50% %s
+o { @tag( 255 )rootA
+chars , u { len @lengthOf( msg_type )`tab	here`,// " ++ [128512]%N ++ runes_of_ascii " emoji
+char[] pack `a\`
+,} ,@lengthOf(uint8x )match
+// " ++ [27880; 37322]%N ++ runes_of_ascii "
+// `tick` ""quote"" 'q'
+MetaDataX as BodyLength
+    {""CRC32"" :// trailing space 
+A
+} , @tag(
+    65535)	int32 u8x @calculatedFrom( ""// no comment"" )
+`two words` ,	@tag( 42 ) match zchar as stringy { [
+4294967296
+]
+    :
+    i64_ }, }root
+    packet
+options1
+{ repeat As`// not a comment` ,
+    repeat lengthOf {A chars , } , packetx  { f32 metadata ,
+int64 u8x
+    // " ++ [128512]%N ++ runes_of_ascii " emoji
+    @calculatedFrom(""1""  ) , int16 rootA , repeat
+    i16	_x
+, }
+// " ++ [27880; 37322]%N ++ runes_of_ascii "
+// c
+, repeat x_y_z {repeat
+    u16 Header
+    `100% of %d` ,
+    // @lengthOf(
+    }, match x // packet A { u8 x, }
+as
+charz
+    { ""// no comment""	:
+    // " ++ [128512]%N ++ runes_of_ascii " emoji
+    As
+, [ 65535
+,4294967296] :i8i8 , [
+""x y"" //x
+,42	,4294967296 ] : i8i8 ,[007,3  ]: options1
+,""a\\"" : f32a ,	} , repeat body , @calculatedFrom(// trailing space 
+""" ++ [233]%N ++ runes_of_ascii "t" ++ [233]%N ++ runes_of_ascii """ ) char[ 007 ]
+trueish @lengthOf( // c
+_x) , }
+    MetaData packetx { }options {
+    lengthOf
+= 7 lengthOf
+    = ' ' ; string_=
+0
+;
+}")).
+Eval vm_compute in ("<<<M758>>>" ++ check (runes_of_ascii "packet trueish
+{
+@tag( 65535	)
+    float @lengthOf( As ) `" ++ [233]%N ++ runes_of_ascii "` ,i32 lengthOf	, repeat
+float64
+    stringy
+`" ++ [28040; 24687; 31867; 22411]%N ++ runes_of_ascii "` , @lengthOf(
+    A
+) //	t
+@calculatedFrom(
+""a\\"" // 50% %s
+) // @lengthOf(
+@leftPad ('\x00' ) repeat
+    u32 crc , chars
+    /// triple
+    , repeat string
+    lengthOf
+`two words`
+, } // @lengthOf(
+packet metadata {
+@leftPad  ( '0' ) A {
+    // `tick` ""quote"" 'q'
+    asx // trailing space 
+{ metadata
+`crlf
+line` ,a1@lengthOf(
+zchar ) ,
+    // " ++ [27880; 37322]%N ++ runes_of_ascii "
+    i32
+    _x
+, T
+{	match repeatCount as
 /// triple
 //	t
-"""" ]: leftPad
-, [""" ++ [233]%N ++ runes_of_ascii "t" ++ [233]%N ++ runes_of_ascii """,007 ] : //	t
-f32a //x
-, 65535 :  body
+charz
+{ // c
+0123456789 : metadata } ,	float64 rootA`" ++ [28040; 24687; 31867; 22411]%N ++ runes_of_ascii "` ,
+/// triple
+// " ++ [128512]%N ++ runes_of_ascii " emoji
+} ,  } , roots@lengthOf( falsey
+) `doc`  ,
+//x
+// a // b
+} , int32 x , float32 calculatedFrom , //
+@lengthOf( charz ) @calculatedFrom(
+""x y"")
+@lengthOf( rootA ) char[ 00]
+    f32a  @calculatedFrom( ""a\\"")`crlf
+line`
+    , zchar[ 10
+] metadata
     ,
-    // @lengthOf(
-    10:u128,42	: // trailing space 
-pack, } ,}options{// " ++ [27880; 37322]%N ++ runes_of_ascii "
-o=
+    zchar[
+007 ] leftPad,
+    repeat i8i8 rootA
+// @lengthOf(
+//
+,uint64 calculatedFrom // " ++ [128512]%N ++ runes_of_ascii " emoji
+@calculatedFrom(
+""x y""
+    )
+`tab	here` , }")).
+Eval vm_compute in ("<<<M295>>>" ++ check (runes_of_ascii "// c
+packet _x {	lengthOf A `crlf
+line`
+, i64_
+    //x
+    { uint64 u ,
+    }
+    , @tag(  1 ) zchar[ 4294967296
+// 50% %s
+// a // b
+]
+    // " ++ [27880; 37322]%N ++ runes_of_ascii "
+    leftPad `" ++ [233]%N ++ runes_of_ascii "`
+    /// triple
+    , } root packet MetaDataX
+    {
+    string
+    roots@lengthOf(falsey ) `two words` , roots asx , repeat Packet  , repeat uint64 falsey
+// c
+//
+, uint8
+MetaDataX  @calculatedFrom( """" ) ,
+leftPad ,	@calculatedFrom(
+    ""{,}"" )
+float64 leftPad	@calculatedFrom(
+""packet""  ),}
+    root packet msg_type { T,@calculatedFrom( """ ++ [28040; 24687]%N ++ runes_of_ascii """)
+char[ 255]x
+, @leftPad
+    (
+'0'
+    )char[
+// `tick` ""quote"" 'q'
+// " ++ [128512]%N ++ runes_of_ascii " emoji
+65535 ]
+    A `{ , }`,match//x
+Z9_ as zchar  {[42 ,""" ++ [28040; 24687]%N ++ runes_of_ascii """,""" ++ [233]%N ++ runes_of_ascii "t" ++ [233]%N ++ runes_of_ascii """ ,10 , 1	, ""\n"" ]
+    :
+len ,[
+    ""a	b""	]
+:packetx,
+    } // packet A { u8 x, }
+,
+    string u128,	@calculatedFrom(
+""" ++ [28040; 24687]%N ++ runes_of_ascii """	) @calculatedFrom(
+""CRC32""
+    ) asx	calculatedFrom  ,
+@tag(
+7 ) repeat body {string	tag , u32 As , }
+// " ++ [27880; 37322]%N ++ runes_of_ascii "
+//
+, @calculatedFrom(""\n"" )	int16
+A
+    @calculatedFrom( ""CRC32""	) `` ,
+    }")).
+Eval vm_compute in ("<<<M682>>>" ++ check (runes_of_ascii "
+packet
+body {
+@calculatedFrom( ""x y"" ) charz `100% of %d`
+, @tag( 007 // " ++ [128512]%N ++ runes_of_ascii " emoji
+)
+repeat packetx
+//x
+// " ++ [128512]%N ++ runes_of_ascii " emoji
+,
+@calculatedFrom( ""\" ++ [233]%N ++ runes_of_ascii """) int8 charz@calculatedFrom( ""`tick`"" ),
+@lengthOf( trueish ) @rightPad
+( ' '
+    )	repeat u lengthOf`// not a comment` // 50% %s
+, @rightPad
+    (
+    '0' )@rightPad( ' '	) @tag(  4294967296
+) x trueish
+, charz @lengthOf( _x )
+, @calculatedFrom(
+    // packet A { u8 x, }
+    ""// no comment"") @rightPad
+() @calculatedFrom(""\" ++ [233]%N ++ runes_of_ascii """ //	t
+) match x as chars {	10
+    :
+    // `tick` ""quote"" 'q'
+    u128
+    ,
+007
+//x
+// `tick` ""quote"" 'q'
+: chars
+, ""it's"": u128 , 255
+: trueish
+,
+} ,
+    match falsey
+// @lengthOf(
+// packet A { u8 x, }
+as roots { ""// no comment""	: lengthOf ,
+""" ++ [233]%N ++ runes_of_ascii "t" ++ [233]%N ++ runes_of_ascii """
+    : len , ""1""
+    // 50% %s
+    : i8i8,
+    [
+0
+, """ ++ [28040; 24687]%N ++ runes_of_ascii """,  255 ] :
+// @lengthOf(
+// packet A { u8 x, }
+uint8x
+// a // b
+// packet A { u8 x, }
+, 10 :
+T
+    ""x y""
+:
+    u128, } ,  }")).
+Eval vm_compute in ("<<<M859>>>" ++ check (runes_of_ascii "root packet Header {
+    @lengthOf(	x_y_z // packet A { u8 x, }
+)// packet A { u8 x, }
+@tag(
+//x
+// 50% %s
+0123456789
+    )	@lengthOf(
+    As ) string len`two words`
+,
+    match Pad
+as _x
+{
+""\" ++ [233]%N ++ runes_of_ascii """
+    : Z9_, } , i8i8 @lengthOf(	repeatCount// trailing space 
+)
+//x
+//x
+`doc`	,
+char[ 0 // trailing space 
+]	chars	, @leftPad
+( ' ' ) Logon `tab	here` , // c
+@calculatedFrom( ""\" ++ [233]%N ++ runes_of_ascii """	) repeat zchar { zchar[ 4294967296 ]
+    A `
+` ,
+repeat
+a1
+    {//	t
+repeat
+Header  , zchar[
+    7 ]packetx
+`{ , }`
+,
+char[007
+]_x , } ,	match chars as
+o {
+    ""\" ++ [233]%N ++ runes_of_ascii """
+:// " ++ [27880; 37322]%N ++ runes_of_ascii "
+calculatedFrom ""\n"":u8x ,
+""a	b"" : Pad //
+,65535
+: int
+    ,	}
+, char[] float// @lengthOf(
+@lengthOf(lengthOf )
+    ,
+}
+    , uint32 asx `
+` , char[] uint8x  @calculatedFrom( //x
+""abc"" ) ,
+    //
+    @tag( 255
+    ) @calculatedFrom( ""a\\""
+    ) zchar[
+    3
+] options1 ,charz `two words` ,
     // c
-    f64 ; x_y_z //
-= /// triple
-u32 len =
-    42;
-falsey
-    = true	;}")).
-Eval vm_compute in ("<<<M219>>>" ++ check (runes_of_ascii "MetaData _x
-{As	f32a `doc` // " ++ [128512]%N ++ runes_of_ascii " emoji
-, }
-packet// @lengthOf(
-x {	zchar[  255
-    ]	calculatedFrom  ,string_@calculatedFrom( ""a	b"" ) , @calculatedFrom(""" ++ [128512]%N ++ runes_of_ascii """)@tag(
-4294967296 )@calculatedFrom(""a	b""
-) char[ 0 ]i64_
-`" ++ [28040; 24687; 31867; 22411]%N ++ runes_of_ascii "` ,
-    @leftPad(' '  ) repeat
-// c
-// c
-MetaDataX
-    ,}")).
-Eval vm_compute in ("<<<M650>>>" ++ check (runes_of_ascii "root packet tag { }  packet MetaDataX{char[007	]
-// c
-/// triple
-asx  @calculatedFrom( ""a\""b""
-) `say ""hi""`// " ++ [27880; 37322]%N ++ runes_of_ascii "
-,  @tag(4294967296 )
-    char[1//x
-] packetx @calculatedFrom(""a\""b""
-    ) ,
-// " ++ [128512]%N ++ runes_of_ascii " emoji
-// a // b
-@calculatedFrom(""" ++ [233]%N ++ runes_of_ascii "t" ++ [233]%N ++ runes_of_ascii """  ) repeat pack // " ++ [27880; 37322]%N ++ runes_of_ascii "
-,
-    uint8 // c")).
-Eval vm_compute in ("<<<M510>>>" ++ check (runes_of_ascii "root packet tag { }  packet {MetaDataX char[007	]
-// c
-/// triple
-asx  @calculatedFrom( ""a\""b""
-) `say ""hi""`// " ++ [27880; 37322]%N ++ runes_of_ascii "
-,  @tag(4294967296 )
-    char[1//x
-] packetx @calculatedFrom(""a\""b""
-    ) ,
-// " ++ [128512]%N ++ runes_of_ascii " emoji
-// a // b
-@calculatedFrom(""" ++ [233]%N ++ runes_of_ascii "t" ++ [233]%N ++ runes_of_ascii """  ) repeat pack // " ++ [27880; 37322]%N ++ runes_of_ascii "
-,
-    } // c")).
-Eval vm_compute in ("<<<M550>>>" ++ check (runes_of_ascii "root packet tag { }  packet MetaDataX{char[007	]
-// c
-/// triple
-asx  @calculatedFrom( ""a\""b""
-`say ""hi""` )// " ++ [27880; 37322]%N ++ runes_of_ascii "
-,  @tag(4294967296 )
-    char[1//x
-] packetx @calculatedFrom(""a\""b""
-    ) ,
-// " ++ [128512]%N ++ runes_of_ascii " emoji
-// a // b
-@calculatedFrom(""" ++ [233]%N ++ runes_of_ascii "t" ++ [233]%N ++ runes_of_ascii """  ) repeat pack // " ++ [27880; 37322]%N ++ runes_of_ascii "
-,
-    } // c")).
-Eval vm_compute in ("<<<M628>>>" ++ check (runes_of_ascii "root packet tag { }  packet MetaDataX{char[007	]
-// c
-/// triple
-asx  @calculatedFrom( ""a\""b""
-) `say ""hi""`// " ++ [27880; 37322]%N ++ runes_of_ascii "
-,  @tag(4294967296 )
-    char[1//x
-] packetx @calculatedFrom(""a\""b""
-    ) ,
-// " ++ [128512]%N ++ runes_of_ascii " emoji
-// a // b
-@calculatedFrom(""" ++ [233]%N ++ runes_of_ascii "t" ++ [233]%N ++ runes_of_ascii """   repeat pack // " ++ [27880; 37322]%N ++ runes_of_ascii "
-,
-    } // c")).
-Eval vm_compute in ("<<<M483>>>" ++ check (runes_of_ascii "root  tag { }  packet MetaDataX{char[007	]
-// c
-/// triple
-asx  @calculatedFrom( ""a\""b""
-) `say ""hi""`// " ++ [27880; 37322]%N ++ runes_of_ascii "
-,  @tag(4294967296 )
-    char[1//x
-] packetx @calculatedFrom(""a\""b""
-    ) ,
-// " ++ [128512]%N ++ runes_of_ascii " emoji
-// a // b
-@calculatedFrom(""" ++ [233]%N ++ runes_of_ascii "t" ++ [233]%N ++ runes_of_ascii """  ) repeat pack // " ++ [27880; 37322]%N ++ runes_of_ascii "
-,
-    } // c")).
-Eval vm_compute in ("<<<M1301>>>" ++ check (runes_of_ascii "// top
-MetaData
-    // c0
+    }")).
+Eval vm_compute in ("<<<M3554>>>" ++ check (runes_of_ascii "
+packet  BodyLength{ 
+@calculatedFrom(
+""a\""b"" ) @leftPad 
+(
+	'\x00' 
+) // " ++ [128512]%N ++ runes_of_ascii " emoji
+  @lengthOf(
+    // " ++ [27880; 37322]%N ++ runes_of_ascii "
+  // @lengthOf(
+
+	charz
+    ) string_ lengthOf
+,@tag( 	 // trailing space 
+  4294967296  )@tag(
+	3
+	) @lengthOf(
+
 body
+) 
+int64
+
+T
+
+``
+,
+
+@tag(
+42
+
+)
+
+charz {
+asx @calculatedFrom(
+""\" ++ [233]%N ++ runes_of_ascii """
+    ),
+},
+@rightPad( '\x00'
+    )
+	match
+	BodyLength as
+msg_type{ 
+[1
+] 
+:  int
+,
+""{,}""
+
+    :
+int, } ,repeat
+i16
+
+    roots
+
+`line1
+line2` , repeat  // trailing space 
+	o 
+{  match A
+    as
+T 
+{3
+
+    :a1 
+,
+
+} 
+,
+
+    repeat	string
+    Z9_ `" ++ [233]%N ++ runes_of_ascii "` , f32 calculatedFrom
+`100% of %d`,
+    }
+,
+repeat
+	zchar[
+255
+	] 
+x,  // " ++ [128512]%N ++ runes_of_ascii " emoji
+      float32 T  `line1
+line2`
+,	@calculatedFrom( 
+""" ++ [28040; 24687]%N ++ runes_of_ascii """)
+
+repeat f32a
+
+string_
+
+    ,
+@calculatedFrom(
+    ""1"" ) @tag(	0 )@lengthOf(calculatedFrom
+) u16 
+zchar
+
+`a\` ,  } ")).
+Eval vm_compute in ("<<<M680>>>" ++ check (runes_of_ascii "
+packet
+    // c
+    float{
+@tag( 1 )
+@calculatedFrom( ""1"" // trailing space 
+)
+    matchKey @lengthOf( crc )`` , } MetaData pack
+{char[]
+BodyLength , trueish
+    crc ,
+    char[	0123456789]	A // @lengthOf(
+`
+`
+,
+zchar leftPad
+`two words`	, } packet
+charz//x
+{x {
+    u16
+x
+`line1
+line2`// a // b
+,	repeat
+a1 ,roots asx , } , matchKey rootA
+,
+@lengthOf( options1 )  u16
+Z9_, @calculatedFrom( """ ++ [233]%N ++ runes_of_ascii "t" ++ [233]%N ++ runes_of_ascii """ ) match rootA as// @lengthOf(
+matchKey
+{ // " ++ [27880; 37322]%N ++ runes_of_ascii "
+0123456789
+:u8x ,65535 : crc// " ++ [27880; 37322]%N ++ runes_of_ascii "
+,
+[
+    1 ,
+    ""x y"" ,
+1 ]
+: x_y_z ,
+    [ 00  , """ ++ [128512]%N ++ runes_of_ascii """]
+    : MetaDataX ,
+    }	, i16
+    /// triple
+    float
+    , @calculatedFrom( ""a	b""	)// " ++ [128512]%N ++ runes_of_ascii " emoji
+@lengthOf( Foo ) repeat//	t
+chars // @lengthOf(
+, pack , }
+root packet i8i8 { @calculatedFrom(
+""" ++ [128512]%N ++ runes_of_ascii """) Header { repeat
+    Pad _x ,
+}, }
+")).
+Eval vm_compute in ("<<<M1264>>>" ++ check (runes_of_ascii "// trailing space 
+packet
+    msg_type
+{ repeat x{zchar[65535
+    //
+    ] i64_,
+o
+    @lengthOf(
+lengthOf )	, string msg_type `u8 x,`  ,
+    zchar[
+4294967296 ] BodyLength
+@lengthOf( uint8x) , }	,
+Packet
+    , match// " ++ [27880; 37322]%N ++ runes_of_ascii "
+BodyLength as uint8x { [ 00]
+    :
+    msg_type , } ,
+@tag(10) BodyLength , repeat int asx ,
+    // " ++ [27880; 37322]%N ++ runes_of_ascii "
+    repeat
+    crc uint8x , repeat trueish `it's` ,}options{ // packet A { u8 x, }
+A = ' '
+; body =float64 ;
+}	packet tag
+    // c
+    {float64 repeatCount	,
+    @leftPad	(' ' )
+    match calculatedFrom as i8i8 // `tick` ""quote"" 'q'
+{ ""// no comment""
+    //	t
+    : trueish },
+char[0123456789 ]
+a1  `{ , }` ,len @lengthOf(
+// @lengthOf(
+// " ++ [128512]%N ++ runes_of_ascii " emoji
+T
+    )  `" ++ [28040; 24687; 31867; 22411]%N ++ runes_of_ascii "` ,
+uint8 string_ ,	repeat len
+`it's` ,//	t
+u16 crc , }
+")).
+Eval vm_compute in ("<<<M3321>>>" ++ check (runes_of_ascii "// top
+packet
+    // c0
+MetaDataX
     // c1
 {
     // c2
-i64
-    // c3
-pack
-    // c4
-`it's`
-    // c5
-,
-    // c6
 }
+    // c3
+root
+    // c4
+packet
+    // c5
+len
+    // c6
+{
+    // c7
+zchar[
+    // c8
+7
+    // c9
+]
+    // c10
+matchKey
+    // c11
+@lengthOf(
+    // c12
+BodyLength
+    // c13
+)
+    // c14
+,
+    // c15
+BodyLength
+    // c16
+`// not a comment`
+    // c17
+,
+    // c18
+match
+    // c19
+u8x
+    // c20
+as
+    // c21
+i8i8
+    // c22
+{
+    // c23
+""a\""b""
+    // c24
+:
+    // c25
+stringy
+    // c26
+,
+    // c27
+[
+    // c28
+""`tick`""
+    // c29
+]
+    // c30
+:
+    // c31
+u8x
+    // c32
+0123456789
+    // c33
+:
+    // c34
+options1
+    // c35
+,
+    // c36
+[
+    // c37
+""`tick`""
+    // c38
+]
+    // c39
+:
+    // c40
+x_y_z
+    // c41
+}
+    // c42
+,
+    // c43
+}
+    // c44
+")).
+Eval vm_compute in ("<<<M3633>>>" ++ check (runes_of_ascii "packet 
+
+    // 50% %s
+      // " ++ [27880; 37322]%N ++ runes_of_ascii "
+  	Header
+	{
+	zchar[ 
+0123456789]	i64_
+    // @lengthOf(
+, @lengthOf(
+    calculatedFrom
+
+)u8x 
+calculatedFrom
+	, @tag(	//
+		1)repeat
+	float32
+
+    BodyLength ,
+chars
+
+    crc
+,
+    repeat 
+string	Header `{ , }`	, 
+@calculatedFrom(  // packet A { u8 x, }
+
+  ""\n""
+
+    )
+
+_x	@calculatedFrom(""it's"")
+,	falsey  {packetx 
+      // c
+  // " ++ [128512]%N ++ runes_of_ascii " emoji
+  	@lengthOf(	Z9_
+	) 
+,  As  {	zchar[  3] i64_,}, string u8x
+@calculatedFrom( ""a\""b""  )
+
+    ,
+} ,
+int32  T
+    @calculatedFrom(
+""{,}""	),
+len
+{
+char[]	chars  @lengthOf( zchar  )
+    ,
+
+int16 MetaDataX @lengthOf(
+
+a1
+
+    ) , },	// `tick` ""quote"" 'q'
+		@tag(
+
+65535
+    )
+	repeat f64 
+u , }
+")).
+Eval vm_compute in ("<<<M4080>>>" ++ check (runes_of_ascii "// top
+	packet// c0
+	MetaDataX	// c1
+      {	// c2
+  }  // c3
+  root 	 // c4
+packet	// c5
+	len  // c6
+    	{// c7
+  zchar[ 	 // c8
+
+7 	 // c9
+]// c10
+		matchKey // c11
+    @lengthOf(  // c12
+	BodyLength// c13
+)// c14
+    ,// c15
+  BodyLength // c16
+  `// not a comment`  // c17
+		,// c18
+	match	// c19
+
+u8x  // c20
+  as  // c21
+  i8i8	// c22
+    { // c23
+  	""a\""b"" 	 // c24
+  :  // c25
+	stringy 	 // c26
+  , // c27
+    [ // c28
+""`tick`""  // c29
+		]// c30
+: 	 // c31
+u8x// c32
+	0123456789  // c33
+  :  // c34
+options1  // c35
+
+, 	 // c36
+
+	[ 	 // c37
+""`tick`""  // c38
+  	]	// c39
+
+	:  // c40
+
+	x_y_z 	 // c41
+    }  // c42
+	, // c43
+    }// c44
+ 
+")).
+Eval vm_compute in ("<<<M805>>>" ++ check (runes_of_ascii "// a // b
+MetaData // " ++ [27880; 37322]%N ++ runes_of_ascii "
+len  { char[ 65535
+]
+    options1, } root
+packet f32a { @leftPad	(
+//	t
+// trailing space 
+)char[
+255 ] u128 //	t
+, zchar[ 42 ] tag
+    @lengthOf( T )
+`a\`
+, int16 Logon
+`{ , }` ,
+    int16
+rootA	,
+@tag(	00)
+char[ 00 ]	packetx @lengthOf( f32a
+    )
+    // trailing space 
+    `{ , }`
+    , u8 Logon `it's`
+    ,
+    // a // b
+    char[]
+x_y_z @lengthOf(
+    len
+    ) ,
+    @lengthOf( Pad )
+    // " ++ [128512]%N ++ runes_of_ascii " emoji
+    char[] packetx,
+    }
+    // " ++ [128512]%N ++ runes_of_ascii " emoji
+    MetaData repeatCount
+    // a // b
+    { zchar[ 1
+    ]
+stringy, Packet rootA
+// packet A { u8 x, }
+//	t
+,
+A
+Z9_
+// a // b
+// 50% %s
+,
+string	u128 ,// a // b
+}
+
+")).
+Eval vm_compute in ("<<<M3547>>>" ++ check (runes_of_ascii "MetaData pack {
+    char[10] _x,
+    calculatedFrom MetaDataX `" ++ [233]%N ++ runes_of_ascii "`,/// triple
+    int32 pack,
+    i16 lengthOf `doc`,
+    a1 u ``,
+    char[255] T,
+}
+
+/// triple
+MetaData stringy {
+    T falsey `say ""hi""`,
+    char[7] leftPad `" ++ [233]%N ++ runes_of_ascii "`,
+}
+
+root packet packetx {
+    char[42] u,
+    i32 tag @calculatedFrom(""abc"") `" ++ [233]%N ++ runes_of_ascii "`,// " ++ [27880; 37322]%N ++ runes_of_ascii "
+    u8 calculatedFrom `say ""hi""`,
+    repeat _x ``,
+    repeat leftPad falsey,
+    i8i8 {
+        string T `line1
+        line2`,
+    },
+}
+
+MetaData T {
+    _x msg_type,
+    char[007] trueish,
+    char[] lengthOf `two words`,
+    char[] zchar `line1
+    line2`,
+    metadata uint8x `" ++ [233]%N ++ runes_of_ascii "`,
+    // " ++ [27880; 37322]%N ++ runes_of_ascii "
+}")).
+Eval vm_compute in ("<<<M3540>>>" ++ check (runes_of_ascii "packet A {
+    // trailing space 
+    // @lengthOf(
+    @rightPad()
+    float64 crc @lengthOf(packetx),
+    @tag(4294967296)
+    char[255] f32a @calculatedFrom(""" ++ [28040; 24687]%N ++ runes_of_ascii """) ``,
+    packetx {
+        repeat chars {
+            repeat zchar[3] charz,// @lengthOf(
+            char[007] falsey `u8 x,`,
+        },
+        metadata `{ , }`,
+        T {
+            char[] uint8x,
+            uint8 MetaDataX `100% of %d`,
+            _x @calculatedFrom(""a\\""),
+        },
+    },
+    // " ++ [27880; 37322]%N ++ runes_of_ascii "
+    repeat i16 metadata `u8 x,`,
+    u8 stringy @calculatedFrom(""" ++ [233]%N ++ runes_of_ascii "t" ++ [233]%N ++ runes_of_ascii """),
+    string u128 @lengthOf(x_y_z) `doc`,
+}")).
+Eval vm_compute in ("<<<M3776>>>" ++ check (runes_of_ascii "options {
+    msg_type = ""it's""
+}
+
+// c
+root packet stringy {
+    @rightPad('0')
+    //	t
+    char[42] calculatedFrom @lengthOf(_x),
+    @calculatedFrom(""a\\"")
+    @lengthOf(falsey)
+    int16 repeatCount @lengthOf(falsey) `it's`,// `tick` ""quote"" 'q'
+    tag {
+        match f32a as zchar {
+            42 : string_,
+            // a // b
+        },
+    },
+    string_ @calculatedFrom(""`tick`"") ``,
+    @lengthOf(leftPad)
+    i32 A `u8 x,`,
+    @lengthOf(falsey)
+    zchar[255] rootA @lengthOf(T) `" ++ [233]%N ++ runes_of_ascii "`,
+    @lengthOf(crc)
+    char[] len,
+}
+
+MetaData roots {
+    As Pad,
+}")).
+Eval vm_compute in ("<<<M3238>>>" ++ check (runes_of_ascii "// top
+packet
+    // c0
+roots
+    // c1
+{
+    // c2
+@lengthOf(
+    // c3
+Pad
+    // c4
+)
+    // c5
+char[
+    // c6
+4294967296
+    // c7
+]
+    // c8
+options1
+    // c9
+@calculatedFrom(
+    // c10
+""`tick`""
+    // c11
+)
+    // c12
+,
+    // c13
+lengthOf
+    // c14
+,
+    // c15
+@tag(
+    // c16
+7
+    // c17
+)
+    // c18
+repeat
+    // c19
+T
+    // c20
+,
+    // c21
+@calculatedFrom(
+    // c22
+""a	b""
+    // c23
+)
+    // c24
+char[]
+    // c25
+Packet
+    // c26
+@lengthOf(
+    // c27
+_x
+    // c28
+)
+    // c29
+`doc`
+    // c30
+,
+    // c31
+}
+    // c32
+")).
+Eval vm_compute in ("<<<M400>>>" ++ check (runes_of_ascii "packet Z9_ {
+@lengthOf(
+stringy ) @tag( 0123456789 )
+    // c
+    f32
+    len  ,
+match x as u {7:
+tag }
+,
+match
+zchar as o //
+{ 4294967296	: uint8x [
+""CRC32"" , ""// no comment"" ,
+4294967296 // " ++ [27880; 37322]%N ++ runes_of_ascii "
+,
+    0123456789]	:BodyLength ,// packet A { u8 x, }
+}	,
+    @leftPad (
+'0' )
+    @lengthOf( BodyLength)
+@tag( 0// packet A { u8 x, }
+)
+    calculatedFrom `// not a comment` ,
+    // " ++ [27880; 37322]%N ++ runes_of_ascii "
+    @rightPad (  ' '
+) crc// " ++ [128512]%N ++ runes_of_ascii " emoji
+@lengthOf(
+    Foo) `two words`
+, repeat As , stringy uint8x	`crlf
+line`, MetaDataX
+int , }
+")).
+Eval vm_compute in ("<<<M954>>>" ++ check (runes_of_ascii "options {	u128=
+    007 f32a =// c
+7}  root
+packet uint8x { // c
+f64
+    u @lengthOf(	x )`two words`	,
+    @lengthOf( packetx) repeat float Pad `u8 x,`,int x `` , i64 crc
+@calculatedFrom( ""it's"") ,repeat	Logon ,	uint64
+o
+`it's`,@tag(
+42)
+    i32 _x@lengthOf(i8i8 ) `{ , }` // c
+, } options { float =
+    // " ++ [128512]%N ++ runes_of_ascii " emoji
+    ""\" ++ [233]%N ++ runes_of_ascii """; msg_type
+= false
+BodyLength =  ' 'u =
+' ' o = ""\n"" ;
+} MetaData	u
+{ x_y_z leftPad
+, char[
+65535 ]
+asx ,  char[] u8x , // c
+charz
+len `// not a comment`
+, } options{
+}")).
+Eval vm_compute in ("<<<M1047>>>" ++ check (runes_of_ascii "
+packet msg_type
+    { match
+a1 as x_y_z{[ """ ++ [233]%N ++ runes_of_ascii "t" ++ [233]%N ++ runes_of_ascii """
+    ,
+// " ++ [128512]%N ++ runes_of_ascii " emoji
+// " ++ [128512]%N ++ runes_of_ascii " emoji
+"""" ,
+    """ ++ [128512]%N ++ runes_of_ascii """ // 50% %s
+, ""`tick`"" ,
+""x y"" , ""abc"", ""\" ++ [233]%N ++ runes_of_ascii """, ""packet""
+] :
+    int, }// " ++ [128512]%N ++ runes_of_ascii " emoji
+, repeat
+uint16 f32a
+`it's`
+    , } root packet rootA{ As crc ,
+@rightPad ( //	t
+'\x00'
+// `tick` ""quote"" 'q'
+// " ++ [27880; 37322]%N ++ runes_of_ascii "
+)
+    @lengthOf( u)repeat	i16 matchKey
+,
+    @calculatedFrom(	""x y""
+//
+// c
+) char[]	u128 @calculatedFrom( ""`tick`"" )
+    , Z9_ @lengthOf( matchKey )
+    ,
+    //	t
+    } options {
+}
+")).
+Eval vm_compute in ("<<<M3317>>>" ++ check (runes_of_ascii "// top
+root // c0
+packet // c1
+trueish // c2
+{ // c3
+} // c4
+MetaData // c5
+x_y_z // c6
+{ // c7
+zchar[ // c8
+7 // c9
+] // c10
+body // c11
+, // c12
+BodyLength // c13
+_x // c14
+, // c15
+i8i8 // c16
+As // c17
+, // c18
+i8 // c19
+Foo // c20
+, // c21
+} // c22
+packet // c23
+f32a // c24
+{ // c25
+@lengthOf( // c26
+x // c27
+) // c28
+match // c29
+Foo // c30
+as // c31
+trueish // c32
+{ // c33
+10 // c34
+: // c35
+f32a // c36
+, // c37
+} // c38
+, // c39
+} // c40
+")).
+Eval vm_compute in ("<<<M999>>>" ++ check (runes_of_ascii "packet int { @tag( 3 )match u128
+    as
+    lengthOf
+    { [ ""abc"" ]	: A , ""a\""b"" : rootA//
+,
+    65535 :zchar
+    , 255  : zchar 255:stringy, } ,}root packet string_ {
+@leftPad ( '\x00' ) char[]  A@lengthOf( x)// " ++ [128512]%N ++ runes_of_ascii " emoji
+,
+char[ 3 // a // b
+]
+    int
+    ,BodyLength @lengthOf(// " ++ [128512]%N ++ runes_of_ascii " emoji
+msg_type ) , uint16
+Pad @lengthOf( falsey )
+,
+}MetaData crc { string chars , // @lengthOf(
+MetaDataX u8x,	char[ 007]
+    T `say ""hi""` , }")).
+Eval vm_compute in ("<<<M168>>>" ++ check (runes_of_ascii "// " ++ [128512]%N ++ runes_of_ascii " emoji
+root
+packet // packet A { u8 x, }
+T
+    // a // b
+    {
+int16  a1 ,
+tag {	u16 stringy , }
+    , MetaDataX crc ,i16 stringy @calculatedFrom(
+""x y"" ) , match
+int as
+BodyLength//
+{ 1 : Header
+,
+    [ 0 ] : tag """ ++ [28040; 24687]%N ++ runes_of_ascii """ :
+    asx,
+// " ++ [27880; 37322]%N ++ runes_of_ascii "
+// trailing space 
+},	@leftPad ( ' ' ) metadata
+// a // b
+// @lengthOf(
+`it's`
+,	len
+    @lengthOf( metadata), zchar[65535
+    ]
+A @lengthOf( //	t
+trueish
+    ) , } //")).
+Eval vm_compute in ("<<<M4404>>>" ++ check (runes_of_ascii "options {
+    o = """ ++ [28040; 24687]%N ++ runes_of_ascii """
+    float = ' '
+    leftPad = ""a\\"";
+}
+
+MetaData u8x {
+    u8 zchar,
+    A repeatCount,
+    repeatCount MetaDataX,// @lengthOf(
+    char[] string_,
+    packetx Foo,
+    uint64 i8i8 `{ , }`,
+}
+
+packet x {
+    //	t
+    @leftPad('0')
+    T {
+        int32 i8i8 `it's`,
+        char[] rootA `line1
+                line2`,
+        zchar[7] leftPad,
+    },// packet A { u8 x, }
+}")).
+Eval vm_compute in ("<<<M4076>>>" ++ check (runes_of_ascii "packet float {
+    repeat string_ {
+        f64 trueish,
+        u8 body `// not a comment`,
+        // a // b
+        // @lengthOf(
+        int64 packetx @lengthOf(zchar),
+    },
+    @calculatedFrom(""`tick`"")
+    repeat zchar[007] u8x `line1
+    line2`,
+    // " ++ [27880; 37322]%N ++ runes_of_ascii "
+    // c
+    repeat chars `say ""hi""`,// trailing space 
+}
+
+MetaData asx {
+    //	t
+    a1 chars `it's`,
+    i64 int,
+}")).
+Eval vm_compute in ("<<<M4155>>>" ++ check (runes_of_ascii "MetaData
+    x
+{  _x Z9_ 
+`u8 x,` 
+,Z9_  matchKey,
+	u128
+
+    // packet A { u8 x, }
+
+roots,
+lengthOf 
+matchKey ,
+    char[
+
+    3	// @lengthOf(
+
+] packetx
+	`100% of %d`	,
+char[7
+	]
+	    // c
+  options1
+`doc`
+
+    ,// 50% %s
+  } options
+
+    { leftPad
+
+=
+    ' '
+
+}	packet
+
+roots	{
+    float32
+T
+@lengthOf( 
+int  )
+`" ++ [233]%N ++ runes_of_ascii "`	,
+    } packet
+
+    rootA
+{
+}
+")).
+Eval vm_compute in ("<<<M4461>>>" ++ check (runes_of_ascii "packet metadata {
+    zchar[1] stringy,
+    repeat float uint8x,
+    @tag(255)
+    // `tick` ""quote"" 'q'
+    zchar @lengthOf(_x),
+    tag @lengthOf(i64_),
+    repeat repeatCount {
+        char o,
+        char[7] T,
+    },
+}
+
+root packet u8x {
+    @tag(0)
+    repeat falsey string_,
+    @calculatedFrom("""")
+    lengthOf,
+    u16 calculatedFrom,
+}")).
+Eval vm_compute in ("<<<M201>>>" ++ check (runes_of_ascii "MetaData
+msg_type { options1 A, string metadata `tab	here`
+    , uint32 BodyLength ,} packet
+// trailing space 
+// a // b
+T {// packet A { u8 x, }
+}
+    packet
+    charz { roots  @lengthOf( msg_type ) // 50% %s
+`// not a comment` , int32 a1 `{ , }` ,	match leftPad as string_	{	65535 :f32a
+, }
+, } options
+{ options1 = true ; }")).
+Eval vm_compute in ("<<<M1281>>>" ++ check (runes_of_ascii "options
+    { } options
+{ As	=true As
+=
+char[
+    // `tick` ""quote"" 'q'
+    0123456789	]
+calculatedFrom = ""\n"" ; i64_
+=true ;
+// c
+//
+} root packet repeatCount  { @rightPad
+( '\x00' ) match Z9_ as zchar { ""\n"" :Pad// 50% %s
+""CRC32"": options1 , ""x y"" : o , 7 :
+A ,}
+,
+    } packet asx{ zchar u128`crlf
+line` ,	} 	 ")).
+Eval vm_compute in ("<<<M3792>>>" ++ check (runes_of_ascii "packet A {
+    u8 a,
+}
+
+packet B {
+    u16 b,
+}
+
+packet C {
+    u32 c,
+}
+
+root packet M {
+    u16 Kc,
+    u16 Kb,
+    u16 Ka,
+    match Kc as X {
+        9 : A,
+        10 : B,
+    },
+    match Kb as Y {
+        2 : C,
+        1 : A,
+    },
+    match Ka as Z {
+        1 : B,
+    },
+    A,
+    B,
+    C,
+}")).
+Eval vm_compute in ("<<<M1225>>>" ++ check (runes_of_ascii "
+root packet
+zchar { @leftPad
+(
+    '\x00'
+) string
+    As
+`
+` , // 50% %s
+} packet packetx { u8 Z9_, @rightPad	(
+    ) // c
+int16 int
+`u8 x,`, @tag(3 )	@calculatedFrom( ""`tick`"")  char[255
+    // `tick` ""quote"" 'q'
+    ]stringy
+, zchar[	10
+    ] len , @tag(
+00
+)
+zchar MetaDataX ,
+}
+")).
+Eval vm_compute in ("<<<M4347>>>" ++ check (runes_of_ascii "
+
+  // top
+	packet 	 // c0
+    Inner// c1
+	  {	// c2
+  	u8
+        // c3
+  a	// c4a
+// c4b
+    , 	 // c5a
+	// c5b
+}root 	 // c7a
+  // c7b
+packet  // c8a
+
+	// c8b
+	P { 
+
+// c10
+	Inner	// c11a
+// c11b
+
+ref_obj
+    , // c13a
+// c13b
+    	u8
+    // c14
+x  
+      // c15
+
+,}
+")).
+Eval vm_compute in ("<<<M1532>>>" ++ check (runes_of_ascii "// 50% %s
+packet	a1
+    { zchar[ zchar[
+// a // b
+// 50% %s
+007]
+T `it's`
+    ,@rightPad
+    // a // b
+    (
+'\x00')
+    o repeatCount , }  packet Logon {  }packet	Logon //x
+{ repeat // " ++ [128512]%N ++ runes_of_ascii " emoji
+uint16 u128
+    //
+    `a\`,
+falsey
+@calculatedFrom(""packet"" ) ,
+    } 	 ")).
+Eval vm_compute in ("<<<M42>>>" ++ check (runes_of_ascii "options	{
+    // 50% %s
+    Foo
+=
+zchar[ 1
+    ]
+uint8x= ""// no comment""Pad =
+char[]
+    // 50% %s
+    ; // c
+A
+    =
+4294967296 a1
+    = ""`tick`"" ; } packet BodyLength {  @calculatedFrom(
+""packet""
+) roots `100% of %d` ,@tag(10 ) f32 uint8x `{ , }`/// triple
+,
+}
+")).
+Eval vm_compute in ("<<<M1705>>>" ++ check (runes_of_ascii "// 50% %s
+packet	a1
+    { zchar[
+// a // b
+// 50%@x %s
+007]
+T `it's`
+    ,@rightPad
+    // a // b
+    (
+'\x00')
+    o repeatCount , }  packet Logon {  }packet	Logon //x
+{ repeat // " ++ [128512]%N ++ runes_of_ascii " emoji
+uint16 u128
+    //
+    `a\`,
+falsey
+@calculatedFrom(""packet"" ) ,
+    } 	 ")).
+Eval vm_compute in ("<<<M1583>>>" ++ check (runes_of_ascii "// 50% %s
+packet	a1
+    { zchar[
+// a // b
+// 50% %s
+007]
+T `it's`
+    ,@rightPad
+    // a // b
+    (
+'\x00')
+    repeatCount o , }  packet Logon {  }packet	Logon //x
+{ repeat // " ++ [128512]%N ++ runes_of_ascii " emoji
+uint16 u128
+    //
+    `a\`,
+falsey
+@calculatedFrom(""packet"" ) ,
+    } 	 ")).
+Eval vm_compute in ("<<<M1581>>>" ++ check (runes_of_ascii "// 50% %s
+packet	a1
+    { zchar[
+// a // b
+// 50% %s
+007]
+T `it's`
+    ,@rightPad
+    // a // b
+    (
+'\x00')
+     repeatCount , }  packet Logon {  }packet	Logon //x
+{ repeat // " ++ [128512]%N ++ runes_of_ascii " emoji
+uint16 u128
+    //
+    `a\`,
+falsey
+@calculatedFrom(""packet"" ) ,
+    } 	 ")).
+Eval vm_compute in ("<<<M3432>>>" ++ check (runes_of_ascii "packet P1 {
+    u8 a,
+}
+packet P2 {
+    P1,
+}
+packet P3 {
+    P2,
+    P1,
+}
+packet P4 {
+    repeat P3,
+    P2,
+}
+root packet P5 {
+    P4,
+    P3,
+    P1,
+    u8 K,
+    match K as Body {
+        4 : P4,
+        3 : P3,
+        2 : P2,
+        1 : P1,
+    },
+}
+")).
+Eval vm_compute in ("<<<M1120>>>" ++ check (runes_of_ascii "options /// triple
+{ }	packet	len
+{ int16 trueish // c
+`` ,}
+    packet //
+uint8x { @rightPad (
+    '\x00' )
+@calculatedFrom(
+""x y"")
+// " ++ [27880; 37322]%N ++ runes_of_ascii "
+//
+repeat
+    //x
+    f32 u , @leftPad( '0'
+)	float64 Z9_ @lengthOf(// packet A { u8 x, }
+tag
+)`it's`
+//x
+//
+, }
+")).
+Eval vm_compute in ("<<<M739>>>" ++ check (runes_of_ascii "packet rootA {@rightPad (	) f32a	`crlf
+line` ,@tag( // c
+42 )
+len{match _x
+    as	packetx {
+    007 :BodyLength
+    , [ ""\" ++ [233]%N ++ runes_of_ascii """ , ""\n"" ] : Pad, }// c
+, MetaDataX `{ , }`
+    , int64 Pad`` ,uint32	charz
+@calculatedFrom(
+    ""1"") ,
+    } , } // " ++ [27880; 37322]%N)).
+Eval vm_compute in ("<<<M3418>>>" ++ check (runes_of_ascii "packet orderItem // c1
+{ // c2
+u8 // c3a
+  // c3b
+a , // c5a
+  // c5b
+} root
     // c7
 packet
     // c8
-stringy
-    // c9
-{
-    // c10
-int16
-    // c11
-calculatedFrom
-    // c12
-,
-    // c13
-}
-    // c14
-")).
-Eval vm_compute in ("<<<M1736>>>" ++ check (runes_of_ascii "  options
-
-    {MetaDataX
-	=
-    ""\n"" 
-/// triple
-  stringy
-
-=
-4294967296
-;
-    Packet
-	=
-    false
-;
-	As
-= ""a\\""/// triple
-
-	;stringy= ' '
-
-    ; }
-	options {
-	}MetaData
-
-roots
-
-{
-    stringy
-MetaDataX
-
-,
-} ")).
-Eval vm_compute in ("<<<M1451>>>" ++ check (runes_of_ascii "// top
-root // c0
-packet
-    // c1
-P // c2a
-  // c2b
-{ // c3a
-  // c3b
-hdr { // c5a
-  // c5b
-u8 // c6a
-  // c6b
-a ,
-    // c8
-} // c9a
+newOrder // c9a
   // c9b
-, u8 // c11a
+{ // c10a
+  // c10b
+orderItem // c11a
   // c11b
-x
+,
     // c12
-,
+u8
     // c13
-} ")).
-Eval vm_compute in ("<<<M612>>>" ++ check (runes_of_ascii "root packet tag { }  packet MetaDataX{char[007	]
-// c
-/// triple
-asx  @calculatedFrom( ""a\""b""
-) `say ""hi""`// " ++ [27880; 37322]%N ++ runes_of_ascii "
-,  @tag(4294967296 )
-    char[1//x
-] packetx @calculatedFrom(""a\""b""")).
-Eval vm_compute in ("<<<M189>>>" ++ check (runes_of_ascii "MetaData  msg_type	{ Packet
-// @lengthOf(
+x , // c15a
+  // c15b
+} // c16
+")).
+Eval vm_compute in ("<<<M4012>>>" ++ check (runes_of_ascii "packet Pad {
+    @lengthOf(msg_type)
+    match u8x as u {
+        10 : msg_type,
+        // @lengthOf(
+        // c
+        255 : roots,
+        ""CRC32"" : BodyLength,
+        [1, ""a\""b""] : trueish,
+    },
+    //	t
+    //	t
+}")).
+Eval vm_compute in ("<<<M715>>>" ++ check (runes_of_ascii "packet  calculatedFrom
+{ @calculatedFrom(""" ++ [128512]%N ++ runes_of_ascii """ )// @lengthOf(
+repeat // 50% %s
+zchar[007 ] i8i8, @calculatedFrom( ""// no comment"" // " ++ [128512]%N ++ runes_of_ascii " emoji
+) char[] //x
+x_y_z ,	} root packet u128
+    { i64 int@lengthOf(f32a ) ,  }")).
+Eval vm_compute in ("<<<M727>>>" ++ check (runes_of_ascii "packet repeatCount // a // b
+{} MetaData packetx
 // trailing space 
-int , char[3 ] Foo`// not a comment`
-    // `tick` ""quote"" 'q'
-    ,
-zchar[ 7
-    ]
-uint8x,
-leftPad crc `
-`, }")).
-Eval vm_compute in ("<<<M475>>>" ++ check (runes_of_ascii "packet
-    $// `tick` ""quote"" 'q'
-    crc
-// packet A { u8 x, }
 //	t
-{
-u32 a1 ,
-    // trailing space 
-    roots
-charz //
-`two words`,	}
-    MetaData int {
-} /// triple")).
-Eval vm_compute in ("<<<M699>>>" ++ check (runes_of_ascii "root packet len // trailing space 
-{
-// " ++ [27880; 37322]%N ++ runes_of_ascii "
-//	t
-char[10
-] metadata	@lengthOf( o ) `crlf
-line`,
-    @rightPad
-( ' '
-) string
-    @calculatedFrom( Header ""a\\""
-    ), }
-")).
-Eval vm_compute in ("<<<M399>>>" ++ check (runes_of_ascii "packet
-    // `tick` ""quote"" 'q'
-    crc
-// packet A { u8 x, }
-//	t
-{
- a1 ,
-    // trailing space 
-    roots
-charz //
-`two words`,	}
-    MetaData int {
-} /// triple")).
-Eval vm_compute in ("<<<M719>>>" ++ check (runes_of_ascii "root packet len // trailing space 
-{
-// " ++ [27880; 37322]%N ++ runes_of_ascii "
-//	t
-char[10
-] metadata	@lengthOf( o ) `crlf
-line`,
-    
-( ' '
-) string
-    Header @calculatedFrom( ""a\\""
-    ), }
-")).
-Eval vm_compute in ("<<<M1971>>>" ++ check (runes_of_ascii "packet A {
-    match k as n {
-        [
-            ""a"", ""bb"", ""c c"", ""d"", ""e"",
-            ""f"", ""g"", ""h"", ""i""
-        ] : B,
-        2 : C,
-    },
-}")).
-Eval vm_compute in ("<<<M1774>>>" ++ check (runes_of_ascii "packet A {
-    match k as n {
-        [
-            ""a"", ""bb"", ""c c"", ""d"", ""e"",
-            ""f"", ""g""
-        ] : B,
-        2 : C,
-    },
-}")).
-Eval vm_compute in ("<<<M577>>>" ++ check (runes_of_ascii "root packet tag { }  packet MetaDataX{char[007	]
-// c
-/// triple
-asx  @calculatedFrom( ""a\""b""
-) `say ""hi""`// " ++ [27880; 37322]%N ++ runes_of_ascii "
-,  @tag(4294967296")).
-Eval vm_compute in ("<<<M1270>>>" ++ check (runes_of_ascii "root packet matchKey { zchar[ 3 ] pack @calculatedFrom( ""a	b"" ) `doc` , } options { } MetaData A { int8 msg_type , }
-// c
-")).
-Eval vm_compute in ("<<<M1249>>>" ++ check (runes_of_ascii "root packet matchKey { zchar[ 3 ] pack @calculatedFrom( ""a	b"" ) `doc` , } // c
-options { } MetaData A { int8 msg_type , }")).
-Eval vm_compute in ("<<<M1464>>>" ++ check (runes_of_ascii "
-
-  packet B
-
-{
-
-u8
-    a
-    , string
-s	,
-}
-
-root  packet P
-
-{
-	u16 
-L
-@lengthOf(B ) ,	B,
-
-    u8
-    t
-    ,
-}
-")).
-Eval vm_compute in ("<<<M1851>>>" ++ check (runes_of_ascii "packet A {
-    u16 len @lengthOf(body) `
-    `,
-    u32 crc @calculatedFrom(""CRC32"") `
-    `,
-    string body,
-}")).
-Eval vm_compute in ("<<<M1830>>>" ++ check (runes_of_ascii "  packet metadata  
-      // c
-  	{ 
-Logon
-{A `" ++ [28040; 24687; 31867; 22411]%N ++ runes_of_ascii "` ,  tag o ,
-    } 
-, zchar  len`// not a comment` ,  }
-
-")).
-Eval vm_compute in ("<<<M926>>>" ++ check (runes_of_ascii "packet A {
-    u16 len @lengthOf(body) `
-`,
-    u32 crc @calculatedFrom(""CRC32"") `
-`,
-    string body,
-}")).
-Eval vm_compute in ("<<<M1760>>>" ++ check (runes_of_ascii "
-packet metadata	{ 
-Logon // c
-	{ A 
-`" ++ [28040; 24687; 31867; 22411]%N ++ runes_of_ascii "`, tag  o, } ,zchar len
-`// not a comment`
-,
-
+{  uint8x
+Pad `{ , }` ,x_y_z	tag`{ , }` , uint16 msg_type	, char[] pack , zchar[	255 ]// trailing space 
+f32a  `// not a comment`	, }")).
+Eval vm_compute in ("<<<M197>>>" ++ check (runes_of_ascii "packet x
+    {
+    string msg_type ,match roots  as // @lengthOf(
+pack { ""\" ++ [233]%N ++ runes_of_ascii """: leftPad ,
+    //	t
+    0  : u8x 255 : options1
+,""x y""
+: i8i8// " ++ [27880; 37322]%N ++ runes_of_ascii "
+, ""x y"" : len ""`tick`"": metadata ,
     }
+    ,}
 ")).
-Eval vm_compute in ("<<<M102>>>" ++ check (runes_of_ascii "
-options {
-a1/// triple
-=""1""
-;
-trueish	=  i64 ; stringy=""" ++ [128512]%N ++ runes_of_ascii """
-; u8x
-= 255 ;
-u128
-=
-""`tick`""; }
-
-")).
-Eval vm_compute in ("<<<M1594>>>" ++ check (runes_of_ascii "packet chars {
+Eval vm_compute in ("<<<M4202>>>" ++ check (runes_of_ascii "// 50% %s
+packet a1 {
+    zchar[007] T `it's`,
+    @rightPad()
+    o repeatCount,
 }
 
-packet MetaDataX {
-    @tag(42)
-    i16 string_,
-    repeat x `say ""hi""`,
+packet Logon {
+}
+
+packet Logon {
+    repeat uint16 u128 `a\`,
+    falsey @calculatedFrom(""packet""),
 }")).
-Eval vm_compute in ("<<<M854>>>" ++ check (runes_of_ascii "packet A {
-  match k as n {
-    [""a"", 22, ""c c"", 4, ""e"", 66, ""g"", 8] : B
-    2 : C
-  },
-}")).
-Eval vm_compute in ("<<<M1208>>>" ++ check (runes_of_ascii "MetaData float { float64 charz `
-` , } root packet chars { @rightPad ( '0' // c
-) Foo , }")).
-Eval vm_compute in ("<<<M1419>>>" ++ check (runes_of_ascii "packet chars { } packet MetaDataX { @tag( 42 ) i16 string_
-// c
-, repeat x `say ""hi""` , }")).
-Eval vm_compute in ("<<<M2018>>>" ++ check (runes_of_ascii "packet Foo {
+Eval vm_compute in ("<<<M3532>>>" ++ check (runes_of_ascii "root
+    packet	MetaDataX 
+{
+    } //x
+	  MetaData 
+        //
+    //
+    _x  { 
+
+    // `tick` ""quote"" 'q'
+
+  //x
+char[]  x
+
     //x
-    uint8x,
-    match len as options1 {
-        3 : i64_,
-    },
+	  // c
+  ,MetaDataX
+
+zchar
+
+    ,
 }")).
-Eval vm_compute in ("<<<M1149>>>" ++ check (runes_of_ascii "packet metadata { Logon { A `" ++ [28040; 24687; 31867; 22411]%N ++ runes_of_ascii "` , tag o , } ,
-// c
-zchar len `// not a comment` , }")).
-Eval vm_compute in ("<<<M1354>>>" ++ check (runes_of_ascii "packet o { repeat Logon uint8x , } // c
-options { asx = zchar[ 3 ] stringy = '\x00' }")).
-Eval vm_compute in ("<<<M1600>>>" ++ check (runes_of_ascii "MetaData body {
-    i64 pack `it's`,
+Eval vm_compute in ("<<<M3895>>>" ++ check (runes_of_ascii "MetaData trueish {
+    len packetx `" ++ [28040; 24687; 31867; 22411]%N ++ runes_of_ascii "`,
+    lengthOf len,
+    zchar[7] T `{ , }`,
+    string_ f32a,
+    len Z9_ ``,
+    f64 options1,
 }
 
-packet stringy {
-    int16 calculatedFrom,
+options {
+    u8x = string;
 }")).
-Eval vm_compute in ("<<<M1315>>>" ++ check (runes_of_ascii "MetaData body { i64 pack `it's` // c
-, } packet stringy { int16 calculatedFrom , }")).
-Eval vm_compute in ("<<<M1891>>>" ++ check (runes_of_ascii "
+Eval vm_compute in ("<<<M951>>>" ++ check (runes_of_ascii "MetaData body {
+    // c
+    zchar[ 0123456789
+] MetaDataX,uint8 As  ,	u8x
+Logon
+`doc`
+    , char[
+// c
+// " ++ [27880; 37322]%N ++ runes_of_ascii "
+0123456789 ] msg_type , zchar[1
+    ] x_y_z
+    , }")).
+Eval vm_compute in ("<<<M4259>>>" ++ check (runes_of_ascii "
 
-  packet	A	{Inner { 
-u8
-    x
-`a
-b`  ,	Deep
-	{u8 
-y
-`a
-b` , } ,
+  options 	 // packet A { u8 x, }
+{	roots
 
-    } ,
-} ")).
-Eval vm_compute in ("<<<M898>>>" ++ check (runes_of_ascii "packet A { Inner { match k as n { [1,22,007,4,5,66,7,8,9,10,11] : B, }, }, }")).
-Eval vm_compute in ("<<<M1611>>>" ++ check (runes_of_ascii "
-packet 
-A
+    = 
+""{,}""
 
-{
-match
-k as 
-n {[
-1 
+    asx 
+=
+    ""a	b""  tag	= '0'  // a // b
+  ;
+    Packet =
+false ;
+    zchar
+
+    = 255	} ")).
+Eval vm_compute in ("<<<M3411>>>" ++ check (runes_of_ascii "packet A {
+    u8 a,
+}
+packet B {
+    u16 b,
+}
+root packet P {
+    u8 K,
+    match K as M {
+        [1, 2] : A,
+        3 : B,
+        7 : A,
+    },
+}
+")).
+Eval vm_compute in ("<<<M1332>>>" ++ check (runes_of_ascii "// " ++ [27880; 37322]%N ++ runes_of_ascii "
+root	packet
+packetx {@rightPad (
+'0' )
+float @calculatedFrom(//
+""CRC32"" ) `" ++ [28040; 24687; 31867; 22411]%N ++ runes_of_ascii "` , @calculatedFrom( """" ) repeat	f32 calculatedFrom, } //	t")).
+Eval vm_compute in ("<<<M1934>>>" ++ check (runes_of_ascii "
+packet @calculatedFrom( {
+@leftPad( '0')
+u32
+i64_ `100% of %d` ,repeat// 50% %s
+i8 chars
+    ,
+} MetaData
+    f32a
+{ // packet A { u8 x, }
+}")).
+Eval vm_compute in ("<<<M2067>>>" ++ check (runes_of_ascii "MetaData BodyLength
+{ int8 ,
+Foo string
+    MetaDataX , float zchar ,pack options1
+,asx string_, }
+packet u8x {Foo@lengthOf(charz )
+`" ++ [28040; 24687; 31867; 22411]%N ++ runes_of_ascii "`,  }
+")).
+Eval vm_compute in ("<<<M1928>>>" ++ check (runes_of_ascii "
+packet packet leftPad {
+@leftPad( '0')
+u32
+i64_ `100% of %d` ,repeat// 50% %s
+i8 chars
+    ,
+} MetaData
+    f32a
+{ // packet A { u8 x, }
+}")).
+Eval vm_compute in ("<<<M2335>>>" ++ check (runes_of_ascii "options
+    {
+x_y_z// " ++ [27880; 37322]%N ++ runes_of_ascii "
+= 10 ; }
+packet body {
+    @calculatedFrom(
+// trailing space 
+// " ++ [27880; 37322]%N ++ runes_of_ascii "
+""1""
+)	match T as Foo
+    '\x01'{
+255 :T , }
+,}")).
+Eval vm_compute in ("<<<M1999>>>" ++ check (runes_of_ascii "
+packet leftPad {
+@leftPad( '0')
+u32
+i64_ `100% of %d` ,repeat// 50% %s
+i8 chars
+    int16
+} MetaData
+    f32a
+{ // packet A { u8 x, }
+}")).
+Eval vm_compute in ("<<<M2229>>>" ++ check (runes_of_ascii "options
+    {
+x_y_z// " ++ [27880; 37322]%N ++ runes_of_ascii "
+= 10 10 ; }
+packet body {
+    @calculatedFrom(
+// trailing space 
+// " ++ [27880; 37322]%N ++ runes_of_ascii "
+""1""
+)	match T as Foo
+    {
+255 :T , }
+,}")).
+Eval vm_compute in ("<<<M2286>>>" ++ check (runes_of_ascii "options
+    {
+x_y_z// " ++ [27880; 37322]%N ++ runes_of_ascii "
+= 10 ; }
+packet body {
+    @calculatedFrom(
+// trailing space 
+// " ++ [27880; 37322]%N ++ runes_of_ascii "
+""1""
+)	match T true Foo
+    {
+255 :T , }
+,}")).
+Eval vm_compute in ("<<<M2341>>>" ++ check (runes_of_ascii "options
+    {
+x_y_z// " ++ [27880; 37322]%N ++ runes_of_ascii "
+= 10 ; }
+packet body {
+    @calculatedFrom(
+// trailing space 
+// " ++ [27880; 37322]%N ++ runes_of_ascii "
+""1""
+)	match T as Foo
+    {
+255 :T <, }
+,}")).
+Eval vm_compute in ("<<<M2043>>>" ++ check (runes_of_ascii "
+packet leftPad {
+@leftPad( '0')
+u32
+" ++ [252]%N ++ runes_of_ascii "ber `100% of %d` ,repeat// 50% %s
+i8 chars
+    ,
+} MetaData
+    f32a
+{ // packet A { u8 x, }
+}")).
+Eval vm_compute in ("<<<M3877>>>" ++ check (runes_of_ascii "
+packet A{Inner
+    { match
+
+k 
+as
+
+n{[  1
 ,
-""bb""]	:
+    22 ,
+007
 
-B
+    ,
 
-2	:	C} ,
+4
+, 
+5
+    , 66 ,
+    7 
+,	8
+
+    ,	9
+
+]
+: 
+B, }
+	,	} ,
+
+}
+")).
+Eval vm_compute in ("<<<M2350>>>" ++ check (runes_of_ascii "options
+    {
+" ++ [252]%N ++ runes_of_ascii "ber// " ++ [27880; 37322]%N ++ runes_of_ascii "
+= 10 ; }
+packet body {
+    @calculatedFrom(
+// trailing space 
+// " ++ [27880; 37322]%N ++ runes_of_ascii "
+""1""
+)	match T as Foo
+    {
+255 :T , }
+,}")).
+Eval vm_compute in ("<<<M2179>>>" ++ check (runes_of_ascii "MetaData BodyLength
+{ int8 Foo
+, string
+    MetaDataX , float zchar ,pack options1
+,asx string_, }
+packet u8x {Foo@lengthOf(charz )")).
+Eval vm_compute in ("<<<M2174>>>" ++ check (runes_of_ascii "MetaData BodyLength
+{ int8 Foo
+, string
+    MetaDataX , float zchar ,pack options1
+,asx string_, }
+packet u8x {Foo@lengthOf(charz")).
+Eval vm_compute in ("<<<M3372>>>" ++ check (runes_of_ascii "
+packet
+B{
+
+u8 a
+
+,
+	}
+root
+
+packet	P { u8	K
+, 
+u8
+L@lengthOf(
+	Body
+)
+
+,match K 
+as
+Body
+	{
+    1 : B ,
+    },
 
     }
-
 ")).
-Eval vm_compute in ("<<<M1715>>>" ++ check (runes_of_ascii "
+Eval vm_compute in ("<<<M2430>>>" ++ check (runes_of_ascii "MetaData
+    calculatedFrom
+{ zchar[  10 ]
+    As`tab	here`,
+    }// trailing space 
+options  { roots ='\x00' ; } packet A")).
+Eval vm_compute in ("<<<M3653>>>" ++ check (runes_of_ascii "packet A {
+    Inner {
+        u8 x `x
+        `,
+        Deep {
+            u8 y `x
+            `,
+        },
+    },
+}")).
+Eval vm_compute in ("<<<M1853>>>" ++ check (runes_of_ascii "packet o {
+    roots `it's`
+// trailing space 
+//x
+, , char[ 42
+    ]  A, // " ++ [27880; 37322]%N ++ runes_of_ascii "
+f64
+repeatCount
+    `crlf
+line`
+,}")).
+Eval vm_compute in ("<<<M3080>>>" ++ check (runes_of_ascii "packet A {
+    match k as n {
+        ""x\
+y"" : B,
+        [""x\
+y"", 1] : C,
+        [1,2,3,4,5,""x\
+y""] : D,
+    },
+}")).
+Eval vm_compute in ("<<<M686>>>" ++ check (runes_of_ascii "MetaData trueish {string //
+f32a `` ,  char MetaDataX , stringy string_`100% of %d`,zchar[
+7 ]
+A , } // " ++ [128512]%N ++ runes_of_ascii " emoji")).
+Eval vm_compute in ("<<<M4122>>>" ++ check (runes_of_ascii "packet a1
 
-  packet
-	A 
-{B
-	b
-    `a
-b`, B
+{
 
-`a
-b`,
+@tag(
+1 )rootA  @calculatedFrom(
 
-repeat
+""a	b"" 
+)	, // " ++ [128512]%N ++ runes_of_ascii " emoji
 
-B
-	bs`a
-b` ,
-}
+  }options
+
+    {
+
+lengthOf =
+    i8 }")).
+Eval vm_compute in ("<<<M2020>>>" ++ check (runes_of_ascii "
+packet leftPad {
+@leftPad( '0')
+u32
+i64_ `100% of %d` ,repeat// 50% %s
+i8 chars
+    ,
+} MetaData
+    f32a")).
+Eval vm_compute in ("<<<M3390>>>" ++ check (runes_of_ascii "options {
+LittleEndian
+
+= true ;}
+root
+
+packet	P { u16
+a
+
+,u32
+Sum 
+@calculatedFrom( ""CRC32""
+)
+,
+	}
 ")).
-Eval vm_compute in ("<<<M778>>>" ++ check (runes_of_ascii "packet A {
+Eval vm_compute in ("<<<M3007>>>" ++ check (runes_of_ascii "packet A {
   match k as n {
-    [1, ""bb""] : B
+    [1, 22, ""c c"", 4, 5, ""f"", 7, 8, ""i"", 10, 11, ""l""] : B,
     2 : C
   },
 }")).
-Eval vm_compute in ("<<<M1274>>>" ++ check (runes_of_ascii "// c
-packet x { @rightPad ( ) repeat roots Logon `doc` , }")).
-Eval vm_compute in ("<<<M1775>>>" ++ check (runes_of_ascii "
-MetaData
-trueish{
-u64 	 // trailing space 
-  	i8i8 ,}
+Eval vm_compute in ("<<<M3909>>>" ++ check (runes_of_ascii "MetaData leftPad {
+    int8 falsey `line1
+    line2`,
+}/// triple
 
-")).
-Eval vm_compute in ("<<<M288>>>" ++ check (runes_of_ascii "options { leftPad //	t
-= //	t
-""" ++ [28040; 24687]%N ++ runes_of_ascii """ } // " ++ [128512]%N ++ runes_of_ascii " emoji")).
-Eval vm_compute in ("<<<M1779>>>" ++ check (runes_of_ascii "MetaData
-M{	} // c
-    MetaData N {
-	}  // d")).
-Eval vm_compute in ("<<<M1103>>>" ++ check (runes_of_ascii "root packet
-// c
-u128 { chars `it's` , }")).
-Eval vm_compute in ("<<<M2035>>>" ++ check (runes_of_ascii "
-//	t
-  packet
-Packet{
-u64 tag, 
+options {
+    BodyLength = '0';
+}")).
+Eval vm_compute in ("<<<M2999>>>" ++ check (runes_of_ascii "packet A {
+  match k as n {
+    [1, 22, 007, 4, 5, 66, 7, 8, 9, 10, 11, 12] : B,
+    2 : C
+  },
+}")).
+Eval vm_compute in ("<<<M3416>>>" ++ check (runes_of_ascii "
+packet
+order_item {
+    u8 a,
+
+}root  packet new_order
+    { order_item	, u8 x
+
+    ,
+
 }
 ")).
-Eval vm_compute in ("<<<M1058>>>" ++ check (runes_of_ascii "packet A {
- u8 x `d x`, // c x
+Eval vm_compute in ("<<<M2982>>>" ++ check (runes_of_ascii "packet A {
+  match k as n {
+    [1, 22, ""c c"", 4, 5, ""f"", 7, 8, ""i"", 10] : B
+    2 : C
+  },
 }")).
-Eval vm_compute in ("<<<M1053>>>" ++ check (runes_of_ascii "packet A {
- u8 x `d" ++ [6158]%N ++ runes_of_ascii "`, // c" ++ [6158]%N ++ runes_of_ascii "
+Eval vm_compute in ("<<<M2964>>>" ++ check (runes_of_ascii "packet A {
+  match k as n {
+    [1, ""bb"", 007, ""d"", 5, ""f"", 7, ""h"", 9] : B,
+    2 : C
+  },
 }")).
-Eval vm_compute in ("<<<M1174>>>" ++ check (runes_of_ascii "root packet pack { }
+Eval vm_compute in ("<<<M1415>>>" ++ check (runes_of_ascii "T
+packet
+{ match repeatCount as	calculatedFrom
+{ [65535 ]	: As	,
+} ,}
+// trailing space 
+")).
+Eval vm_compute in ("<<<M658>>>" ++ check (runes_of_ascii "options { Foo
+=zchar[ 42 ]	;
+uint8x= i32 ;
+_x= '\x00' // a // b
+metadata=u32 ;// " ++ [27880; 37322]%N ++ runes_of_ascii "
+}
+")).
+Eval vm_compute in ("<<<M2952>>>" ++ check (runes_of_ascii "packet A {
+  match k as n {
+    [1, ""bb"", 007, ""d"", 5, ""f"", 7, ""h""] : B
+    2 : C
+  },
+}")).
+Eval vm_compute in ("<<<M1751>>>" ++ check (runes_of_ascii "options{  lengthOf =//x
+i16;
+    BodyLength = 0 0 ; pack
+= false;
+    A = char[ 3 ] }")).
+Eval vm_compute in ("<<<M1820>>>" ++ check (runes_of_ascii "options{  lengthOf =//x
+i16;
+    BodyLength = 0 ; p" ++ [233]%N ++ runes_of_ascii "ack
+= false;
+    A = char[ 3 ] }")).
+Eval vm_compute in ("<<<M1802>>>" ++ check (runes_of_ascii "options{  lengthOf =//x
+i16;
+    BodyLength = 0 ; pack
+= false;
+    A = char[ 3 } ]")).
+Eval vm_compute in ("<<<M3986>>>" ++ check (runes_of_ascii "packet  u8x 
+{
+	}MetaData crc
+	    // c
+      {char[ 4294967296
+
+    ] Foo , }
+")).
+Eval vm_compute in ("<<<M845>>>" ++ check (runes_of_ascii "// c
+packet u
+{ @tag(0 ) repeat zchar[3 ]
+    /// triple
+    MetaDataX
+    , }
+")).
+Eval vm_compute in ("<<<M3243>>>" ++ check (runes_of_ascii "// c
+MetaData Foo { zchar[ 0 ] matchKey , } options { lengthOf = i32 u = 00 ; }")).
+Eval vm_compute in ("<<<M3276>>>" ++ check (runes_of_ascii "MetaData Foo { zchar[ 0 ] matchKey , } options { lengthOf = i32 u =
 // c
+00 ; }")).
+Eval vm_compute in ("<<<M1720>>>" ++ check (runes_of_ascii "options{   =//x
+i16;
+    BodyLength = 0 ; pack
+= false;
+    A = char[ 3 ] }")).
+Eval vm_compute in ("<<<M405>>>" ++ check (runes_of_ascii "MetaData packetx{ zchar T ,u128 x
+,	} options // `tick` ""quote"" 'q'
+{ }")).
+Eval vm_compute in ("<<<M1002>>>" ++ check (runes_of_ascii "root // trailing space 
+packet leftPad { u64 Z9_ `doc`  ,// 50% %s
+}
+
 ")).
-Eval vm_compute in ("<<<M1652>>>" ++ check (runes_of_ascii "packet BodyLength {
+Eval vm_compute in ("<<<M2850>>>" ++ check (runes_of_ascii "MetaData packet true string `doc` = `" ++ [28040; 24687; 31867; 22411]%N ++ runes_of_ascii "` 0123456789 uint16 char 255")).
+Eval vm_compute in ("<<<M2891>>>" ++ check (runes_of_ascii "packet A {
+  match k as n {
+    [1, 22, ""c c""] : B
+    2 : C
+  },
 }")).
-Eval vm_compute in ("<<<M982>>>" ++ check (runes_of_ascii "// c" ++ [160]%N ++ runes_of_ascii "
-packet A {
+Eval vm_compute in ("<<<M3921>>>" ++ check (runes_of_ascii "// a
+MetaData
+    M
+{  }// b
+	// c
+
+  MetaData
+N{ }	// d
+// e")).
+Eval vm_compute in ("<<<M2880>>>" ++ check (runes_of_ascii "packet A {
+  match k as n {
+    [""a"", 22] : B
+    2 : C
+  },
 }")).
-Eval vm_compute in ("<<<M194>>>" ++ check (runes_of_ascii "root
-packet u{}
+Eval vm_compute in ("<<<M3300>>>" ++ check (runes_of_ascii "packet u8x { } MetaData
+// c
+crc { char[ 4294967296 ] Foo , }")).
+Eval vm_compute in ("<<<M372>>>" ++ check (runes_of_ascii "
+root packet
+u128 { @tag(
+    7
+)
+    matchKey pack
+, }
 ")).
-Eval vm_compute in ("<<<M756>>>" ++ check ([65533]%N ++ runes_of_ascii "d" ++ [65533]%N ++ runes_of_ascii "L" ++ [65533; 22; 65533; 65533; 65533; 65533; 4]%N ++ runes_of_ascii "5" ++ [65533; 65533]%N)).
-Eval vm_compute in ("<<<M733>>>" ++ check (runes_of_ascii "znmfa")).
-Eval vm_compute in ("<<<M458>>>" ++ check (runes_of_ascii "p")).
+Eval vm_compute in ("<<<M3708>>>" ++ check (runes_of_ascii "root packet P {
+    hdr {
+        u8 a,
+    },
+    u8 x,
+}")).
+Eval vm_compute in ("<<<M2822>>>" ++ check (runes_of_ascii "@calculatedFrom( ) char[] , [ u64 char , ] u32 [ uint8x")).
+Eval vm_compute in ("<<<M2865>>>" ++ check (runes_of_ascii "f32 float32 f32 ] packet true uint64 } uint32 uint16")).
+Eval vm_compute in ("<<<M2799>>>" ++ check (runes_of_ascii "float64 char[ char char[ f64 true f32 int32 [ ' '")).
+Eval vm_compute in ("<<<M2751>>>" ++ check (runes_of_ascii ": @rightPad = uint32 ""`tick`"" MetaData Logon =")).
+Eval vm_compute in ("<<<M2607>>>" ++ check (runes_of_ascii "packet A { repeat B { C { u8 x, }, D d, }, }")).
+Eval vm_compute in ("<<<M2744>>>" ++ check (runes_of_ascii "0123456789 00 `it's` i8 false ; 0123456789")).
+Eval vm_compute in ("<<<M2427>>>" ++ check (runes_of_ascii "MetaData
+    calculatedFrom
+{ zchar[  10")).
+Eval vm_compute in ("<<<M3230>>>" ++ check (runes_of_ascii "root packet u128 { chars
+// c
+`doc` , }")).
+Eval vm_compute in ("<<<M2361>>>" ++ check (runes_of_ascii "MetaData
+Foo { {Header //
+pack ,	} 	 ")).
+Eval vm_compute in ("<<<M2399>>>" ++ check (runes_of_ascii "Me'taData
+Foo {Header //
+pack ,	} 	 ")).
+Eval vm_compute in ("<<<M2715>>>" ++ check (runes_of_ascii "al'V5L1R/rHm#`x.;N]%kDP7'x;V2o;Dj\f")).
+Eval vm_compute in ("<<<M3844>>>" ++ check (runes_of_ascii "options
+    {Z9_= ""1""
+
+;
+
+    } ")).
+Eval vm_compute in ("<<<M2793>>>" ++ check ([65533]%N ++ runes_of_ascii "8O{" ++ [65533; 65533]%N ++ runes_of_ascii "!" ++ [65533; 19]%N ++ runes_of_ascii "K" ++ [65533; 24]%N ++ runes_of_ascii "0WJ8" ++ [65533; 65533; 65533]%N ++ runes_of_ascii "''" ++ [65533; 65533]%N ++ runes_of_ascii "z2mS[" ++ [453; 65533; 29]%N ++ runes_of_ascii "w")).
+Eval vm_compute in ("<<<M3071>>>" ++ check (runes_of_ascii "root packet A {
+    u8 x `%`,
+}")).
+Eval vm_compute in ("<<<M470>>>" ++ check (runes_of_ascii "packet
+zchar { i32 x_y_z , }
+")).
+Eval vm_compute in ("<<<M3012>>>" ++ check (runes_of_ascii "packet A {
+    u8 x `a
+b`,
+}")).
+Eval vm_compute in ("<<<M3048>>>" ++ check (runes_of_ascii "packet A {
+    u8 x `
+x`,
+}")).
+Eval vm_compute in ("<<<M1535>>>" ++ check (runes_of_ascii "// 50% %s
+packet	a1
+    {")).
+Eval vm_compute in ("<<<M4418>>>" ++ check (runes_of_ascii "  // c" ++ [12288]%N ++ runes_of_ascii "
+    packet  A {}")).
+Eval vm_compute in ("<<<M4459>>>" ++ check (runes_of_ascii "MetaData
+	Z9_
+    {
+}")).
+Eval vm_compute in ("<<<M1734>>>" ++ check (runes_of_ascii "options{  lengthOf =")).
+Eval vm_compute in ("<<<M2836>>>" ++ check (runes_of_ascii "6" ++ [65533]%N ++ runes_of_ascii "(" ++ [65533]%N ++ runes_of_ascii "q" ++ [65533]%N ++ runes_of_ascii "E9" ++ [65533; 6; 65533; 65533; 65533]%N ++ runes_of_ascii "%
+" ++ [65533]%N ++ runes_of_ascii "<i" ++ [1640]%N)).
+Eval vm_compute in ("<<<M3117>>>" ++ check (runes_of_ascii "packet A {
+}
+// c" ++ [8192]%N)).
+Eval vm_compute in ("<<<M1022>>>" ++ check (runes_of_ascii "  packet int { }
+")).
+Eval vm_compute in ("<<<M3625>>>" ++ check (runes_of_ascii "  packet  A{  }
+")).
+Eval vm_compute in ("<<<M2792>>>" ++ check (runes_of_ascii "`doc` @rightPad")).
+Eval vm_compute in ("<<<M419>>>" ++ check (runes_of_ascii "
+
+// 50% %s
+")).
+Eval vm_compute in ("<<<M2548>>>" ++ check (runes_of_ascii ":,;=()[]{}")).
+Eval vm_compute in ("<<<M2487>>>" ++ check (runes_of_ascii "@leftPad")).
+Eval vm_compute in ("<<<M2463>>>" ++ check (runes_of_ascii "option")).
+Eval vm_compute in ("<<<M2518>>>" ++ check (runes_of_ascii """a\""""")).
+Eval vm_compute in ("<<<M2455>>>" ++ check (runes_of_ascii "true")).
+Eval vm_compute in ("<<<M2479>>>" ++ check (runes_of_ascii "' '")).
+Eval vm_compute in ("<<<M2483>>>" ++ check (runes_of_ascii "''")).
+Eval vm_compute in ("<<<M2686>>>" ++ check (runes_of_ascii "1")).
